@@ -766,13 +766,113 @@ def normalise(text, rewrites, site, required=()):
     return text
 
 
+# ------------------------------------------------------------------------------------------------
+# groups: every generated definition belongs to ONE group; a site that fails closed takes down only its group
+# (checks/pure_fns.py builds / audits, per calling check, only the groups relevant to that check's property)
+# ------------------------------------------------------------------------------------------------
+DEF_GROUP = {
+    # Ising matrix elements, bond numbering, bond count, offset (qmc_ising.rs; the copies in single_diagonal_step / timestep)
+    "two_site_hamiltonian": "IsingHam", "transverse_hamiltonian": "IsingHam", "longitudinal_hamiltonian": "IsingHam",
+    "hamiltonian_dispatch": "IsingHam", "bonds_fn_single_diagonal_step": "IsingHam", "bonds_fn_timestep": "IsingHam",
+    "num_bonds_single_diagonal_step": "IsingHam", "num_bonds_timestep": "IsingHam", "field_guard": "IsingHam",
+    "edge_offset_term": "IsingHam", "field_offset": "IsingHam", "total_energy_offset": "IsingHam",
+    "h_closure_single_diagonal_step": "IsingHam", "h_closure_timestep": "IsingHam",
+    # RVB update: the copies inside single_rvb_sweep and the RVB closures of timestep
+    "num_bonds_single_rvb_sweep": "Rvb", "bonds_fn_single_rvb_sweep": "Rvb", "h_closure_single_rvb_sweep": "Rvb",
+    "ising_ratio_single_rvb_sweep": "Rvb", "ising_ratio_timestep": "Rvb",
+    "rvb_edge_weight_single_rvb_sweep_field": "Rvb", "rvb_edge_weight_single_rvb_sweep_nofield": "Rvb",
+    "rvb_edge_weight_timestep_field": "Rvb", "rvb_edge_weight_timestep_nofield": "Rvb",
+    "steps_to_run_single_rvb_sweep": "Rvb", "steps_to_run_timestep": "Rvb",
+    # heat bath: the gates (heatbath.rs) / the copies inside set_enable_heatbath
+    "hb_insert_numerator": "HeatBath", "hb_insert_denominator": "HeatBath", "hb_insert_gate": "HeatBath", "hb_insert_test": "HeatBath",
+    "hb_remove_numerator": "HeatBath", "hb_remove_denominator": "HeatBath", "hb_remove_gate": "HeatBath",
+    "num_bonds_set_enable_heatbath": "HeatBathIsing", "bonds_fn_set_enable_heatbath": "HeatBathIsing", "h_closure_set_enable_heatbath": "HeatBathIsing",
+    # Metropolis diagonal update (diagonal.rs)
+    "diag_numerator": "Diag", "diag_denominator": "Diag", "diag_remove_denominator": "Diag",
+    "diag_insert_accept": "Diag", "diag_insert_accept_draws": "Diag", "diag_remove_accept": "Diag", "diag_remove_accept_draws": "Diag",
+    # cluster update: generic pieces (cluster.rs, qmc_runner.rs) / the Ising sampler's closures and call sites
+    "is_valid_cluster_edge": "Cluster", "cluster_flip_prob_cluster_update_sym": "Cluster",
+    "cluster_weight_single_cluster_step": "ClusterIsing", "cluster_weight_timestep": "ClusterIsing",
+    "cluster_flip_prob_single_cluster_step_field": "ClusterIsing", "cluster_flip_prob_single_cluster_step_sym": "ClusterIsing",
+    "cluster_flip_prob_timestep_field": "ClusterIsing", "cluster_flip_prob_timestep_sym": "ClusterIsing",
+    # free-spin refresh
+    "free_refresh_prob_single_cluster_step": "RefreshIsing", "free_refresh_prob_timestep": "RefreshIsing",
+    "free_refresh_prob_flip_free_bits": "RefreshGeneric",
+    # cutoff rule, energy estimator, conversion, interaction size, replica swap
+    "cutoff_rule_single_diagonal_step": "Cutoff", "cutoff_rule_timestep": "Cutoff", "cutoff_rule_diagonal_update": "Cutoff",
+    "get_energy_for_average_n_ising": "EnergyIsing", "get_energy_for_average_n_generic": "EnergyGeneric",
+    "into_qmc_edge_matrix": "Convert", "into_qmc_transverse_matrix": "Convert", "into_qmc_field_matrix": "Convert",
+    "mat_var_size_rule": "Size",
+    "swap_on_chunks": "Tempering",
+}
+PRELUDE_DEFS = ["fabs", "EPSILON", "powi"]      # fixed text, group "Prelude"
+GROUPS = ["Prelude"] + sorted(set(DEF_GROUP.values()))
+
+# the `if <cond on longitudinal> {` sites (one definition `field_guard` for all): which group a deviating site is charged to
+GUARD_GROUP = {
+    ("single_diagonal_step", 1): "IsingHam",       # inside num_bonds
+    ("single_cluster_step", 1): "ClusterIsing",    # field-weighted cluster update or the symmetric one
+    ("single_rvb_sweep", 1): "Rvb",                # inside num_bonds
+    ("single_rvb_sweep", 2): "Rvb",                # rvb_update_with_ising_weight or rvb_update
+    ("set_enable_heatbath", 1): "HeatBathIsing",   # inside num_bonds
+    ("timestep", 1): "IsingHam",                   # inside num_bonds
+    ("timestep", 2): "Rvb",                        # RVB variant
+    ("timestep", 3): "ClusterIsing",               # cluster variant
+    ("into_qmc", 1): "Convert",                    # field interactions of the converted sampler
+    ("relative_weight", 1): "Tempering",           # field factor of the relative weight
+}
+
+
+class _Tolerate:
+    def __init__(self, g, groups):
+        self.g = g
+        self.groups = list(groups)
+        self.name = None
+
+    def __enter__(self):
+        return self
+
+    def __exit__(self, ty, e, tb):
+        if ty is not None and issubclass(ty, Unknown):
+            if self.name:
+                self.g.drop(self.name)
+            self.g.fail(e.site, e.what, [DEF_GROUP[self.name]] if self.name in DEF_GROUP else self.groups)
+            return True
+        return False
+
+
 class Gen:
     def __init__(self, repo):
         self.repo = repo
         self.files = {}
-        self.defs = []      # (name, params text, result type, body text, doc)
-        self.header = []    # source table lines
+        self.defs = []      # (name, Lean text)
+        self.header = []    # (name, source table line)
         self.summary = []
+        self.failures = []  # {"site", "what", "groups"}: sites that failed closed (their definitions are NOT emitted)
+
+    # ---- failure isolation: a site that leaves the whitelist takes down only its own group(s)
+    def fail(self, site, what, groups):
+        self.failures.append({"site": site, "what": what, "groups": sorted(set(g for g in groups if g))})
+
+    def drop(self, name):
+        for n in (name, name + "_draws"):
+            self.defs = [d for d in self.defs if d[0] != n]
+            self.header = [h for h in self.header if h[0] != n]
+            self.summary = [x for x in self.summary if x != n]
+
+    def section(self, groups, fn):
+        """run one extraction section; if it fails closed, nothing of it is emitted and the failure is charged to `groups`"""
+        snap = (list(self.defs), list(self.header), list(self.summary))
+        try:
+            fn()
+        except Unknown as e:
+            self.defs, self.header, self.summary = snap
+            self.fail(e.site, e.what, groups)
+
+    def tolerate(self, groups):
+        """context manager for ONE site of a replicated group: an Unknown raised inside is recorded against the group of the
+        definition being produced (`t.name`, set by the body as soon as it is known) or against `groups`, and swallowed"""
+        return _Tolerate(self, groups)
 
     def file(self, rel):
         if rel not in self.files:
@@ -781,13 +881,15 @@ class Gen:
 
     def record(self, name, src, off, text, notes, what=None):
         sha = hashlib.sha1(text.encode()).hexdigest()
-        self.header.append("  %-36s %s:%d (fn %s)  sha1 %s%s" % (name, src.rel, src.line(off), what or src.enclosing(off), sha,
-                                                               "".join("\n      note: " + n for n in notes)))
+        self.header.append((name, "  %-36s %s:%d (fn %s)  sha1 %s%s" % (name, src.rel, src.line(off), what or src.enclosing(off), sha,
+                                                                      "".join("\n      note: " + n for n in notes))))
         self.summary.append(name)
 
     def add(self, name, params, rty, body, doc):
         ptxt = " ".join("(%s : %s)" % (n, tyname(t)) for n, t in params)
-        self.defs.append("/-- %s -/\ndef %s %s : %s :=\n  %s\n" % (doc, name, ptxt, tyname(rty), body))
+        if name not in DEF_GROUP:
+            raise Unknown(name, "internal: definition without a group in DEF_GROUP")
+        self.defs.append((name, "/-- %s -/\ndef %s %s : %s :=\n  %s\n" % (doc, name, ptxt, tyname(rty), body)))
 
     def translate(self, name, site, src, off, text, ast, params, doc, want=None, what=None, draws=False):
         """type-check `ast` under `params` and add the definition(s)"""
@@ -867,349 +969,430 @@ def run(repo):
     HEAT = "src/sse/qmc_traits/heatbath.rs"
     TEMPER = "src/sse/parallel_tempering/tempering_container.rs"
     TTRAITS = "src/sse/parallel_tempering/tempering_traits.rs"
+    # ---- 1. the three matrix-element functions -------------------------------------------------
+    def _sec_1_two_site_hamiltonian():
+        whole_fn(g, ISING, "two_site_hamiltonian", "two_site_hamiltonian", "`two_site_hamiltonian` (src/sse/qmc_ising.rs)")
+
+    g.section(['IsingHam'], _sec_1_two_site_hamiltonian)
 
     # ---- 1. the three matrix-element functions -------------------------------------------------
-    whole_fn(g, ISING, "two_site_hamiltonian", "two_site_hamiltonian", "`two_site_hamiltonian` (src/sse/qmc_ising.rs)")
-    whole_fn(g, ISING, "transverse_hamiltonian", "transverse_hamiltonian", "`transverse_hamiltonian`")
-    whole_fn(g, ISING, "longitudinal_hamiltonian", "longitudinal_hamiltonian", "`longitudinal_hamiltonian`")
+    def _sec_1_transverse_hamiltonian():
+        whole_fn(g, ISING, "transverse_hamiltonian", "transverse_hamiltonian", "`transverse_hamiltonian`")
+
+    g.section(['IsingHam'], _sec_1_transverse_hamiltonian)
+
+    # ---- 1. the three matrix-element functions -------------------------------------------------
+    def _sec_1_longitudinal_hamiltonian():
+        whole_fn(g, ISING, "longitudinal_hamiltonian", "longitudinal_hamiltonian", "`longitudinal_hamiltonian`")
+
+    g.section(['IsingHam'], _sec_1_longitudinal_hamiltonian)
 
     # ---- 2. is_valid_cluster_edge --------------------------------------------------------------
-    whole_fn(g, CLUSTER, "is_valid_cluster_edge", "is_valid_cluster_edge", "`is_valid_cluster_edge` (src/sse/qmc_traits/cluster.rs)")
-    src = g.file(CLUSTER)
-    site = CLUSTER + "::is_valid_cluster_edge_op"
-    f = src.fn("is_valid_cluster_edge_op", site)
-    if " ".join(src.body(f).split()) != "is_valid_cluster_edge(op.is_constant(), op.get_vars().len())":
-        raise Unknown(site, "body is no longer `is_valid_cluster_edge(op.is_constant(), op.get_vars().len())`")
+    def _sec_2():
+        whole_fn(g, CLUSTER, "is_valid_cluster_edge", "is_valid_cluster_edge", "`is_valid_cluster_edge` (src/sse/qmc_traits/cluster.rs)")
+        src = g.file(CLUSTER)
+        site = CLUSTER + "::is_valid_cluster_edge_op"
+        f = src.fn("is_valid_cluster_edge_op", site)
+        if " ".join(src.body(f).split()) != "is_valid_cluster_edge(op.is_constant(), op.get_vars().len())":
+            raise Unknown(site, "body is no longer `is_valid_cluster_edge(op.is_constant(), op.get_vars().len())`")
+
+    g.section(['Cluster'], _sec_2)
 
     # ---- 3. cutoff growth rule, three sites ----------------------------------------------------
-    terms = []
-    for rel, expect in ((ISING, ["single_diagonal_step", "timestep"]), (RUNNER, ["diagonal_update"])):
-        src = g.file(rel)
-        ms = [m for m in all_matches(src, r"self\.cutoff\s*=\s*([^;]*);", rel) if m.group(1).strip() != "cutoff"]
-        where = [src.enclosing(m.start()) for m in ms]
-        if where != expect:
-            raise Unknown(rel + "::cutoff rule", "assignments `self.cutoff = <rule>` expected exactly in %s, found in %s" % (expect, where))
-        for m, fn in zip(ms, where):
-            site = "%s::%s::cutoff rule" % (rel, fn)
-            txt = normalise(m.group(1), [("self.cutoff", "cutoff"), ("manager.get_n()", "n"), ("m.get_n()", "n")], site, required=["self.cutoff"])
-            ast = parse_expr(txt, site)
-            name = "cutoff_rule_" + fn
-            body, _ = g.translate(name, site, src, m.start(), m.group(0), ast, [("cutoff", "Nat"), ("n", "Nat")],
-                                  "the cutoff growth rule `self.cutoff = …` at the end of `%s` (%s); `n` = `<manager>.get_n()`" % (fn, rel), want="Nat")
-            terms.append((site, body))
-        # the set_cutoff assignment must stay the plain one
-        plain = [m for m in all_matches(src, r"self\.cutoff\s*=\s*([^;]*);", rel) if m.group(1).strip() == "cutoff"]
-        if [src.enclosing(m.start()) for m in plain] != ["set_cutoff"]:
-            raise Unknown(rel + "::set_cutoff", "expected exactly one `self.cutoff = cutoff;`, in set_cutoff")
-    same(terms, "cutoff rule")
+    def _sec_3():
+        groups = ['Cutoff']
+        items = []
+        for rel, expect in ((ISING, ["single_diagonal_step", "timestep"]), (RUNNER, ["diagonal_update"])):
+            src = g.file(rel)
+            ms = [m for m in all_matches(src, r"self\.cutoff\s*=\s*([^;]*);", rel) if m.group(1).strip() != "cutoff"]
+            where = [src.enclosing(m.start()) for m in ms]
+            if where != expect:
+                raise Unknown(rel + "::cutoff rule", "assignments `self.cutoff = <rule>` expected exactly in %s, found in %s" % (expect, where))
+            for m, fn in zip(ms, where):
+                with g.tolerate(groups) as t:
+                    site = "%s::%s::cutoff rule" % (rel, fn)
+                    txt = normalise(m.group(1), [("self.cutoff", "cutoff"), ("manager.get_n()", "n"), ("m.get_n()", "n")], site, required=["self.cutoff"])
+                    ast = parse_expr(txt, site)
+                    name = t.name = "cutoff_rule_" + fn
+                    body, _ = g.translate(name, site, src, m.start(), m.group(0), ast, [("cutoff", "Nat"), ("n", "Nat")],
+                                          "the cutoff growth rule `self.cutoff = …` at the end of `%s` (%s); `n` = `<manager>.get_n()`" % (fn, rel), want="Nat")
+                    items.append((site, body, name, DEF_GROUP[name]))
+            # the set_cutoff assignment must stay the plain one
+            plain = [m for m in all_matches(src, r"self\.cutoff\s*=\s*([^;]*);", rel) if m.group(1).strip() == "cutoff"]
+            if [src.enclosing(m.start()) for m in plain] != ["set_cutoff"]:
+                raise Unknown(rel + "::set_cutoff", "expected exactly one `self.cutoff = cutoff;`, in set_cutoff")
+        same(g, items, "cutoff rule")
+
+    g.section(['Cutoff'], _sec_3)
 
     # ---- 4. get_energy_for_average_n, both samplers --------------------------------------------
-    whole_fn(g, ISING, "get_energy_for_average_n", "get_energy_for_average_n_ising",
-             "`QmcIsingGraph::get_energy_for_average_n`; `offset` = `self.get_offset()` = `self.total_energy_offset`",
-             rewrites=[("self.get_offset()", "offset")], extra=[("offset", "Rat")])
-    src = g.file(ISING)
-    f = src.fn("get_offset", ISING + "::get_offset")
-    if " ".join(src.body(f).split()) != "self.total_energy_offset":
-        raise Unknown(ISING + "::get_offset", "body is no longer `self.total_energy_offset`")
-    whole_fn(g, RUNNER, "get_energy_for_average_n", "get_energy_for_average_n_generic",
-             "`Qmc::get_energy_for_average_n`; `offset` = `self.offset`", rewrites=[("self.offset", "offset")], extra=[("offset", "Rat")])
+    def _sec_4_ising():
+        whole_fn(g, ISING, "get_energy_for_average_n", "get_energy_for_average_n_ising",
+                 "`QmcIsingGraph::get_energy_for_average_n`; `offset` = `self.get_offset()` = `self.total_energy_offset`",
+                 rewrites=[("self.get_offset()", "offset")], extra=[("offset", "Rat")])
+        src = g.file(ISING)
+        f = src.fn("get_offset", ISING + "::get_offset")
+        if " ".join(src.body(f).split()) != "self.total_energy_offset":
+            raise Unknown(ISING + "::get_offset", "body is no longer `self.total_energy_offset`")
+
+    g.section(['EnergyIsing'], _sec_4_ising)
+
+    # ---- 4. get_energy_for_average_n, both samplers --------------------------------------------
+    def _sec_4_generic():
+        whole_fn(g, RUNNER, "get_energy_for_average_n", "get_energy_for_average_n_generic",
+                 "`Qmc::get_energy_for_average_n`; `offset` = `self.offset`", rewrites=[("self.offset", "offset")], extra=[("offset", "Rat")])
+
+    g.section(['EnergyGeneric'], _sec_4_generic)
 
     # ---- 5. total_energy_offset in the constructor ---------------------------------------------
-    src = g.file(ISING)
-    site = ISING + "::new_with_rng_with_manager_hook::total_energy_offset"
-    f = src.fn("new_with_rng_with_manager_hook", site)
-    body = src.body(f)
-    base = f["body0"] + 1
+    def _sec_5():
+        src = g.file(ISING)
+        site = ISING + "::new_with_rng_with_manager_hook::total_energy_offset"
+        f = src.fn("new_with_rng_with_manager_hook", site)
+        body = src.body(f)
+        base = f["body0"] + 1
 
-    def one(regex, what):
-        ms = list(re.finditer(regex, body, re.S))
-        if len(ms) != 1:
-            raise Unknown(site, "expected exactly one `%s`, found %d" % (what, len(ms)))
-        return ms[0]
+        def one(regex, what):
+            ms = list(re.finditer(regex, body, re.S))
+            if len(ms) != 1:
+                raise Unknown(site, "expected exactly one `%s`, found %d" % (what, len(ms)))
+            return ms[0]
 
-    m = one(r"let edge_offset = edges\.iter\(\)\.map\(\|\(_, j\)\| ([^;]*?)\)\.sum::<f64>\(\);", "let edge_offset = edges.iter().map(|(_, j)| <term>).sum::<f64>();")
-    g.translate("edge_offset_term", site, src, base + m.start(), m.group(0), parse_expr(m.group(1), site), [("j", "Rat")],
-                "summand of `edge_offset = edges.iter().map(|(_, j)| …).sum::<f64>()`", want="Rat")
-    m = one(r"let field_offset = ([^;]*);", "let field_offset = …;")
-    g.translate("field_offset", site, src, base + m.start(), m.group(0), parse_expr(m.group(1), site),
-                [("nvars", "Nat"), ("transverse", "Rat"), ("longitudinal", "Rat")], "`field_offset` of the constructor", want="Rat")
-    m = one(r"let total_energy_offset = ([^;]*);", "let total_energy_offset = …;")
-    g.translate("total_energy_offset", site, src, base + m.start(), m.group(0), parse_expr(m.group(1), site),
-                [("edge_offset", "Rat"), ("field_offset", "Rat")], "`total_energy_offset` of the constructor", want="Rat")
-    if len(re.findall(r"\n\s*total_energy_offset,(?=\n)", body)) != 1:
-        raise Unknown(site, "the struct literal no longer stores `total_energy_offset,` verbatim")
-    if len(re.findall(r"\n\s*(transverse|longitudinal),(?=\n)", body)) != 2:
-        raise Unknown(site, "the struct literal no longer stores `transverse,` / `longitudinal,` verbatim")
-    for other in re.finditer(r"total_energy_offset\s*(?:[-+*/]?=)(?!=)", src.src):
-        fn = src.enclosing(other.start())
-        if fn != "new_with_rng_with_manager_hook":
-            raise Unknown(site, "`total_energy_offset` is assigned in `%s` as well" % fn)
+        m = one(r"let edge_offset = edges\.iter\(\)\.map\(\|\(_, j\)\| ([^;]*?)\)\.sum::<f64>\(\);", "let edge_offset = edges.iter().map(|(_, j)| <term>).sum::<f64>();")
+        g.translate("edge_offset_term", site, src, base + m.start(), m.group(0), parse_expr(m.group(1), site), [("j", "Rat")],
+                    "summand of `edge_offset = edges.iter().map(|(_, j)| …).sum::<f64>()`", want="Rat")
+        m = one(r"let field_offset = ([^;]*);", "let field_offset = …;")
+        g.translate("field_offset", site, src, base + m.start(), m.group(0), parse_expr(m.group(1), site),
+                    [("nvars", "Nat"), ("transverse", "Rat"), ("longitudinal", "Rat")], "`field_offset` of the constructor", want="Rat")
+        m = one(r"let total_energy_offset = ([^;]*);", "let total_energy_offset = …;")
+        g.translate("total_energy_offset", site, src, base + m.start(), m.group(0), parse_expr(m.group(1), site),
+                    [("edge_offset", "Rat"), ("field_offset", "Rat")], "`total_energy_offset` of the constructor", want="Rat")
+        if len(re.findall(r"\n\s*total_energy_offset,(?=\n)", body)) != 1:
+            raise Unknown(site, "the struct literal no longer stores `total_energy_offset,` verbatim")
+        if len(re.findall(r"\n\s*(transverse|longitudinal),(?=\n)", body)) != 2:
+            raise Unknown(site, "the struct literal no longer stores `transverse,` / `longitudinal,` verbatim")
+        for other in re.finditer(r"total_energy_offset\s*(?:[-+*/]?=)(?!=)", src.src):
+            fn = src.enclosing(other.start())
+            if fn != "new_with_rng_with_manager_hook":
+                raise Unknown(site, "`total_energy_offset` is assigned in `%s` as well" % fn)
+
+    g.section(['IsingHam'], _sec_5)
 
     # ---- 6. num_bonds, all sites ---------------------------------------------------------------
-    ms = all_matches(src, r"let num_bonds = ([^;]*);", ISING)
-    where = [src.enclosing(m.start()) for m in ms]
-    expect = ["single_diagonal_step", "single_rvb_sweep", "set_enable_heatbath", "timestep"]
-    if where != expect:
-        raise Unknown(ISING + "::num_bonds", "`let num_bonds = …;` expected exactly in %s, found in %s" % (expect, where))
-    terms = []
-    for m, fn in zip(ms, where):
-        site = "%s::%s::num_bonds" % (ISING, fn)
-        fbody = src.body(src.fn(fn, site))
-        for need in (r"let longitudinal = self\.longitudinal;", r"let edges = &self\.edges;", r"let nvars = (?:self\.get_nvars\(\)|state\.len\(\));"):
-            if len(re.findall(need, fbody)) != 1:
-                raise Unknown(site, "expected exactly one binding matching /%s/ in the function" % need)
-        txt = normalise(m.group(1), [("edges.len()", "edges_len")], site, required=["edges.len()"])
-        body_, _ = g.translate("num_bonds_" + fn, site, src, m.start(), m.group(0), parse_expr(txt, site),
-                               [("edges_len", "Nat"), ("nvars", "Nat"), ("longitudinal", "Rat")],
-                               "`num_bonds` handed to the diagonal / heat-bath / RVB updates in `%s`; `edges_len` = `edges.len()`" % fn, want="Nat")
-        terms.append((site, body_))
-    same(terms, "num_bonds")
+    def _sec_6():
+        groups = ['IsingHam', 'Rvb', 'HeatBathIsing']
+        src = g.file(ISING)
+        ms = all_matches(src, r"let num_bonds = ([^;]*);", ISING)
+        where = [src.enclosing(m.start()) for m in ms]
+        expect = ["single_diagonal_step", "single_rvb_sweep", "set_enable_heatbath", "timestep"]
+        if where != expect:
+            raise Unknown(ISING + "::num_bonds", "`let num_bonds = …;` expected exactly in %s, found in %s" % (expect, where))
+        items = []
+        for m, fn in zip(ms, where):
+            with g.tolerate(groups) as t:
+                site = "%s::%s::num_bonds" % (ISING, fn)
+                name = t.name = "num_bonds_" + fn
+                fbody = src.body(src.fn(fn, site))
+                for need in (r"let longitudinal = self\.longitudinal;", r"let edges = &self\.edges;", r"let nvars = (?:self\.get_nvars\(\)|state\.len\(\));"):
+                    if len(re.findall(need, fbody)) != 1:
+                        raise Unknown(site, "expected exactly one binding matching /%s/ in the function" % need)
+                txt = normalise(m.group(1), [("edges.len()", "edges_len")], site, required=["edges.len()"])
+                body_, _ = g.translate(name, site, src, m.start(), m.group(0), parse_expr(txt, site),
+                                       [("edges_len", "Nat"), ("nvars", "Nat"), ("longitudinal", "Rat")],
+                                       "`num_bonds` handed to the diagonal / heat-bath / RVB updates in `%s`; `edges_len` = `edges.len()`" % fn, want="Nat")
+                items.append((site, body_, name, DEF_GROUP[name]))
+        same(g, items, "num_bonds")
+
+    g.section(['IsingHam', 'Rvb', 'HeatBathIsing'], _sec_6)
 
     # ---- 7. the field guards -------------------------------------------------------------------
-    guards = []
-    expect = {"single_diagonal_step": 1, "single_cluster_step": 1, "single_rvb_sweep": 2, "set_enable_heatbath": 1,
-              "timestep": 3, "into_qmc": 1}
-    found = {}
-    for m in all_matches(src, r"\bif ([^{;]*longitudinal[^{;]*?) \{", ISING):
-        fn = src.enclosing(m.start())
-        if fn == "can_swap_managers":
-            if m.group(1) != "self.longitudinal.signum() != other.longitudinal.signum()":
-                raise Unknown(ISING + "::can_swap_managers", "unexpected condition on the field: `%s`" % m.group(1))
-            continue
-        found[fn] = found.get(fn, 0) + 1
-        site = "%s::%s::field guard #%d" % (ISING, fn, found[fn])
-        txt = normalise(m.group(1), [("self.longitudinal", "longitudinal")], site)
-        em = Emit(site, {"longitudinal": "Rat"})
-        body_, ty = em.go(parse_expr(txt, site))
-        if ty != "Bool":
-            raise Unknown(site, "guard of type %s" % tyname(ty))
-        guards.append((site, body_, src, m))
-    if found != expect:
-        raise Unknown(ISING + "::field guards", "`if <cond on longitudinal> {` sites per function: expected %s, found %s" % (sorted(expect.items()), sorted(found.items())))
-    tsrc = g.file(TTRAITS)
-    ms = all_matches(tsrc, r"\bif ([^{;]*longitudinal[^{;]*?) \{", TTRAITS)
-    if [tsrc.enclosing(m.start()) for m in ms] != ["relative_weight"]:
-        raise Unknown(TTRAITS + "::field guard", "expected exactly one condition on the longitudinal field, in relative_weight")
-    site = TTRAITS + "::relative_weight::field guard"
-    txt = normalise(ms[0].group(1), [("self.get_longitudinal_field()", "longitudinal")], site, required=["self.get_longitudinal_field()"])
-    em = Emit(site, {"longitudinal": "Rat"})
-    guards.append((site, em.go(parse_expr(txt, site))[0], tsrc, ms[0]))
-    f = src.fn("get_longitudinal_field", ISING + "::get_longitudinal_field")
-    if " ".join(src.body(f).split()) != "self.longitudinal":
-        raise Unknown(ISING + "::get_longitudinal_field", "body is no longer `self.longitudinal`")
-    same([(s, b) for s, b, _, _ in guards], "field guard (`longitudinal.abs() > std::f64::EPSILON`)")
-    s0, _, src0, m0 = guards[0]
-    g.translate("field_guard", s0, src0, m0.start(), m0.group(1), parse_expr(normalise(m0.group(1), [("self.longitudinal", "longitudinal")], s0), s0),
-                [("longitudinal", "Rat")],
-                "the guard that switches on the longitudinal bonds / the field-weighted cluster update / the field-weighted RVB update / the "
-                "field interactions of `into_qmc` / the field factor of `relative_weight`: the SAME term at all %d sites" % len(guards), want="Bool")
-    for s, _, sr, m in guards[1:]:
-        g.header.append("  %-36s %s:%d (fn %s)  same term" % ("field_guard", sr.rel, sr.line(m.start()), sr.enclosing(m.start())))
+    def _sec_7():
+        groups = ['ClusterIsing', 'Convert', 'HeatBathIsing', 'IsingHam', 'Rvb', 'Tempering']
+        src = g.file(ISING)
+        guards = []
+        expect = {"single_diagonal_step": 1, "single_cluster_step": 1, "single_rvb_sweep": 2, "set_enable_heatbath": 1,
+                  "timestep": 3, "into_qmc": 1}
+        found = {}
+        for m in all_matches(src, r"\bif ([^{;]*longitudinal[^{;]*?) \{", ISING):
+            fn = src.enclosing(m.start())
+            if fn == "can_swap_managers":
+                if m.group(1) != "self.longitudinal.signum() != other.longitudinal.signum()":
+                    raise Unknown(ISING + "::can_swap_managers", "unexpected condition on the field: `%s`" % m.group(1))
+                continue
+            found[fn] = found.get(fn, 0) + 1
+            with g.tolerate([GUARD_GROUP.get((fn, found[fn]), 'IsingHam')]):
+                site = "%s::%s::field guard #%d" % (ISING, fn, found[fn])
+                txt = normalise(m.group(1), [("self.longitudinal", "longitudinal")], site)
+                em = Emit(site, {"longitudinal": "Rat"})
+                body_, ty = em.go(parse_expr(txt, site))
+                if ty != "Bool":
+                    raise Unknown(site, "guard of type %s" % tyname(ty))
+                guards.append((site, body_, src, m))
+        for fn_ in sorted(set(found) | set(expect)):
+            if found.get(fn_, 0) != expect.get(fn_, 0):
+                # a guard was added / removed / no longer mentions the field: charged to the groups of that function's guards
+                gs = sorted(set(v for (f_, _), v in GUARD_GROUP.items() if f_ == fn_)) or groups
+                g.fail("%s::%s::field guards" % (ISING, fn_), "`if <cond on longitudinal> {` sites in `%s`: expected %d, found %d" % (fn_, expect.get(fn_, 0), found.get(fn_, 0)), gs)
+        tsrc = g.file(TTRAITS)
+        ms = all_matches(tsrc, r"\bif ([^{;]*longitudinal[^{;]*?) \{", TTRAITS)
+        if [tsrc.enclosing(m.start()) for m in ms] != ["relative_weight"]:
+            raise Unknown(TTRAITS + "::field guard", "expected exactly one condition on the longitudinal field, in relative_weight")
+        with g.tolerate(["Tempering"]):
+            site = TTRAITS + "::relative_weight::field guard"
+            txt = normalise(ms[0].group(1), [("self.get_longitudinal_field()", "longitudinal")], site, required=["self.get_longitudinal_field()"])
+            em = Emit(site, {"longitudinal": "Rat"})
+            guards.append((site, em.go(parse_expr(txt, site))[0], tsrc, ms[0]))
+        f = src.fn("get_longitudinal_field", ISING + "::get_longitudinal_field")
+        if " ".join(src.body(f).split()) != "self.longitudinal":
+            raise Unknown(ISING + "::get_longitudinal_field", "body is no longer `self.longitudinal`")
+        def guard_group(site):
+            mm = re.search(r"::(\w+)::field guard(?: #(\d+))?$", site)
+            return GUARD_GROUP.get((mm.group(1), int(mm.group(2) or 1)), "IsingHam")
+        major = same(g, [(s_, b_, None, guard_group(s_)) for s_, b_, _, _ in guards], "field guard (`longitudinal.abs() > std::f64::EPSILON`)")
+        if major is None:
+            raise Unknown(ISING + "::field guards", "no majority among the field guards")
+        guards = [x for x in guards if x[1] == major]
+        s0, _, src0, m0 = guards[0]
+        g.translate("field_guard", s0, src0, m0.start(), m0.group(1), parse_expr(normalise(m0.group(1), [("self.longitudinal", "longitudinal"), ("self.get_longitudinal_field()", "longitudinal")], s0), s0),
+                    [("longitudinal", "Rat")],
+                    "the guard that switches on the longitudinal bonds / the field-weighted cluster update / the field-weighted RVB update / the "
+                    "field interactions of `into_qmc` / the field factor of `relative_weight`: the SAME term at all %d sites" % len(guards), want="Bool")
+        for s, _, sr, m in guards[1:]:
+            g.header.append(("field_guard", "  %-36s %s:%d (fn %s)  same term" % ("field_guard", sr.rel, sr.line(m.start()), sr.enclosing(m.start()))))
+
+    g.section(['ClusterIsing', 'Convert', 'HeatBathIsing', 'IsingHam', 'Rvb', 'Tempering'], _sec_7)
 
     # ---- 8. metropolis_single_diagonal_update --------------------------------------------------
-    src = g.file(DIAG)
-    fname = "metropolis_single_diagonal_update"
-    site = DIAG + "::" + fname
-    f = src.fn(fname, site)
-    body = src.body(f)
-    base = f["body0"] + 1
-    sig = " ".join(f["sig"].split())
-    for need in ("cutoff: usize", "n: usize", "beta: f64"):
-        if need not in sig:
-            raise Unknown(site, "parameter `%s` missing from the signature" % need)
-    if len(re.findall(r"let mat_element = hamiltonian\.hamiltonian\(vars, b, substate\.as_ref\(\), substate\.as_ref\(\)\);", body)) != 1:
-        raise Unknown(site, "`mat_element` is no longer `hamiltonian.hamiltonian(vars, b, substate.as_ref(), substate.as_ref())`")
-    nums = list(re.finditer(r"let numerator = ([^;]*);", body))
-    dens = list(re.finditer(r"let denominator = ([^;]*);", body))
-    if len(nums) != 1 or len(dens) != 2:
-        raise Unknown(site, "expected one `let numerator` and two `let denominator`, found %d / %d" % (len(nums), len(dens)))
-    rw = [("hamiltonian.num_bonds()", "num_bonds")]
-    g.translate("diag_numerator", site, src, base + nums[0].start(), nums[0].group(0), parse_expr(normalise(nums[0].group(1), rw, site, required=["hamiltonian.num_bonds()"]), site),
-                [("beta", "Rat"), ("num_bonds", "Nat"), ("mat_element", "Rat")], "`numerator` of `metropolis_single_diagonal_update`; `num_bonds` = `hamiltonian.num_bonds()`", want="Rat")
-    g.translate("diag_denominator", site, src, base + dens[0].start(), dens[0].group(0), parse_expr(dens[0].group(1), site),
-                [("cutoff", "Nat"), ("n", "Nat")], "`denominator` of `metropolis_single_diagonal_update`", want="Rat")
-    if not (nums[0].start() < dens[0].start() < dens[1].start()):
-        raise Unknown(site, "order of the numerator / denominator bindings")
-    sk = re.search(
-        r"match op \{\s*None => \{\s*if ([^{]*?) \{\s*let vars = [^;]*;\s*let op = Op::diagonal\(vars, b, substate, constant\);\s*Some\(Some\(op\)\)\s*\} else \{\s*None\s*\}\s*\}\s*"
-        r"Some\(op\) if op\.is_diagonal\(\) => \{\s*(let denominator = [^;]*;)\s*if ([^{]*?) \{\s*Some\(None\)\s*\} else \{\s*None\s*\}\s*\}\s*_ => None,\s*\}\s*$",
-        body)
-    if not sk:
-        raise Unknown(site, "the final `match op { None => { if <test> {insert} else {keep} } Some(op) if op.is_diagonal() => { let denominator = …; if <test> {remove} else {keep} } _ => None }` skeleton")
-    if sk.start(2) != dens[1].start():
-        raise Unknown(site, "the second `let denominator` is not the one of the removal arm")
-    if not (dens[0].end() <= sk.start()):
-        raise Unknown(site, "the first `let denominator` does not precede the final match")
-    rwg = [("rng.gen_bool", "gen_bool")]
-    g.translate("diag_remove_denominator", site, src, base + dens[1].start(), dens[1].group(0), parse_expr(dens[1].group(1), site),
-                [("denominator", "Rat")], "the removal arm's `let denominator = …` (shadows the outer one)", want="Rat")
-    g.translate("diag_insert_accept", site, src, base + sk.start(1), sk.group(1), parse_expr(normalise(sk.group(1), rwg, site), site),
-                [("numerator", "Rat"), ("denominator", "Rat")], "acceptance test of the `None` (insert) arm", want="Bool", draws=True)
-    g.translate("diag_remove_accept", site, src, base + sk.start(3), sk.group(3), parse_expr(normalise(sk.group(3), rwg, site), site),
-                [("numerator", "Rat"), ("denominator", "Rat")], "acceptance test of the diagonal-operator (remove) arm; `denominator` is the shadowing one", want="Bool", draws=True)
+    def _sec_8():
+        src = g.file(DIAG)
+        fname = "metropolis_single_diagonal_update"
+        site = DIAG + "::" + fname
+        f = src.fn(fname, site)
+        body = src.body(f)
+        base = f["body0"] + 1
+        sig = " ".join(f["sig"].split())
+        for need in ("cutoff: usize", "n: usize", "beta: f64"):
+            if need not in sig:
+                raise Unknown(site, "parameter `%s` missing from the signature" % need)
+        if len(re.findall(r"let mat_element = hamiltonian\.hamiltonian\(vars, b, substate\.as_ref\(\), substate\.as_ref\(\)\);", body)) != 1:
+            raise Unknown(site, "`mat_element` is no longer `hamiltonian.hamiltonian(vars, b, substate.as_ref(), substate.as_ref())`")
+        nums = list(re.finditer(r"let numerator = ([^;]*);", body))
+        dens = list(re.finditer(r"let denominator = ([^;]*);", body))
+        if len(nums) != 1 or len(dens) != 2:
+            raise Unknown(site, "expected one `let numerator` and two `let denominator`, found %d / %d" % (len(nums), len(dens)))
+        rw = [("hamiltonian.num_bonds()", "num_bonds")]
+        g.translate("diag_numerator", site, src, base + nums[0].start(), nums[0].group(0), parse_expr(normalise(nums[0].group(1), rw, site, required=["hamiltonian.num_bonds()"]), site),
+                    [("beta", "Rat"), ("num_bonds", "Nat"), ("mat_element", "Rat")], "`numerator` of `metropolis_single_diagonal_update`; `num_bonds` = `hamiltonian.num_bonds()`", want="Rat")
+        g.translate("diag_denominator", site, src, base + dens[0].start(), dens[0].group(0), parse_expr(dens[0].group(1), site),
+                    [("cutoff", "Nat"), ("n", "Nat")], "`denominator` of `metropolis_single_diagonal_update`", want="Rat")
+        if not (nums[0].start() < dens[0].start() < dens[1].start()):
+            raise Unknown(site, "order of the numerator / denominator bindings")
+        sk = re.search(
+            r"match op \{\s*None => \{\s*if ([^{]*?) \{\s*let vars = [^;]*;\s*let op = Op::diagonal\(vars, b, substate, constant\);\s*Some\(Some\(op\)\)\s*\} else \{\s*None\s*\}\s*\}\s*"
+            r"Some\(op\) if op\.is_diagonal\(\) => \{\s*(let denominator = [^;]*;)\s*if ([^{]*?) \{\s*Some\(None\)\s*\} else \{\s*None\s*\}\s*\}\s*_ => None,\s*\}\s*$",
+            body)
+        if not sk:
+            raise Unknown(site, "the final `match op { None => { if <test> {insert} else {keep} } Some(op) if op.is_diagonal() => { let denominator = …; if <test> {remove} else {keep} } _ => None }` skeleton")
+        if sk.start(2) != dens[1].start():
+            raise Unknown(site, "the second `let denominator` is not the one of the removal arm")
+        if not (dens[0].end() <= sk.start()):
+            raise Unknown(site, "the first `let denominator` does not precede the final match")
+        rwg = [("rng.gen_bool", "gen_bool")]
+        g.translate("diag_remove_denominator", site, src, base + dens[1].start(), dens[1].group(0), parse_expr(dens[1].group(1), site),
+                    [("denominator", "Rat")], "the removal arm's `let denominator = …` (shadows the outer one)", want="Rat")
+        g.translate("diag_insert_accept", site, src, base + sk.start(1), sk.group(1), parse_expr(normalise(sk.group(1), rwg, site), site),
+                    [("numerator", "Rat"), ("denominator", "Rat")], "acceptance test of the `None` (insert) arm", want="Bool", draws=True)
+        g.translate("diag_remove_accept", site, src, base + sk.start(3), sk.group(3), parse_expr(normalise(sk.group(3), rwg, site), site),
+                    [("numerator", "Rat"), ("denominator", "Rat")], "acceptance test of the diagonal-operator (remove) arm; `denominator` is the shadowing one", want="Bool", draws=True)
+
+    g.section(['Diag'], _sec_8)
 
     # ---- 9. heat-bath gates --------------------------------------------------------------------
-    src = g.file(HEAT)
-    fname = "heat_bath_single_diagonal_update"
-    site = HEAT + "::" + fname
-    f = src.fn(fname, site)
-    body = src.body(f)
-    base = f["body0"] + 1
-    sk = re.search(
-        r"let new_op = match op \{\s*None => \{\s*let numerator = ([^;]*);\s*let denominator = ([^;]*);\s*if rng\.gen_bool\(([^{]*?)\) \{"
-        r".*?if ([^{]*?) \{\s*let op = Self::Op::diagonal\(vars, b, substate, constant\);\s*Some\(Some\(op\)\)\s*\} else \{\s*None\s*\}\s*\} else \{\s*None\s*\}\s*\}\s*"
-        r"Some\(op\) if op\.is_diagonal\(\) => \{\s*let numerator = ([^;]*);\s*let denominator = ([^;]*);\s*if rng\.gen_bool\(([^{]*?)\) \{\s*Some\(None\)\s*\} else \{\s*None\s*\}\s*\}",
-        body, re.S)
-    if not sk:
-        raise Unknown(site, "the `match op { None => { let numerator; let denominator; if rng.gen_bool(..) {… if <test> {insert} …} } Some(op) if op.is_diagonal() => { let numerator; let denominator; if rng.gen_bool(..) {remove} } …` skeleton")
-    if len(re.findall(r"let numerator = ", body)) != 2 or len(re.findall(r"let denominator = ", body)) != 2 or len(re.findall(r"gen_bool", body)) != 2:
-        raise Unknown(site, "expected exactly two numerator / denominator / gen_bool occurrences")
-    rw = [("bond_weights.total().unwrap()", "total")]
-    g.translate("hb_insert_numerator", site, src, base + sk.start(1), sk.group(1), parse_expr(normalise(sk.group(1), rw, site, required=[rw[0][0]]), site),
-                [("beta", "Rat"), ("total", "Rat")], "`numerator` of the heat-bath insertion gate; `total` = `bond_weights.total().unwrap()`", want="Rat")
-    g.translate("hb_insert_denominator", site, src, base + sk.start(2), sk.group(2), parse_expr(sk.group(2), site),
-                [("cutoff", "Nat"), ("n", "Nat"), ("numerator", "Rat")], "`denominator` of the heat-bath insertion gate", want="Rat")
-    g.translate("hb_insert_gate", site, src, base + sk.start(3), sk.group(3), parse_expr(sk.group(3), site),
-                [("numerator", "Rat"), ("denominator", "Rat")], "argument of the insertion gate's `rng.gen_bool(…)`", want="Rat")
-    g.translate("hb_insert_test", site, src, base + sk.start(4), sk.group(4), parse_expr(sk.group(4), site),
-                [("p", "Rat"), ("maxweight", "Rat"), ("weight", "Rat")], "the rejection test after the weighted bond choice", want="Bool")
-    g.translate("hb_remove_numerator", site, src, base + sk.start(5), sk.group(5), parse_expr(sk.group(5), site),
-                [("cutoff", "Nat"), ("n", "Nat")], "`numerator` of the heat-bath removal gate", want="Rat")
-    g.translate("hb_remove_denominator", site, src, base + sk.start(6), sk.group(6), parse_expr(normalise(sk.group(6), rw, site, required=[rw[0][0]]), site),
-                [("numerator", "Rat"), ("beta", "Rat"), ("total", "Rat")], "`denominator` of the heat-bath removal gate", want="Rat")
-    g.translate("hb_remove_gate", site, src, base + sk.start(7), sk.group(7), parse_expr(sk.group(7), site),
-                [("numerator", "Rat"), ("denominator", "Rat")], "argument of the removal gate's `rng.gen_bool(…)`", want="Rat")
+    def _sec_9():
+        src = g.file(HEAT)
+        fname = "heat_bath_single_diagonal_update"
+        site = HEAT + "::" + fname
+        f = src.fn(fname, site)
+        body = src.body(f)
+        base = f["body0"] + 1
+        sk = re.search(
+            r"let new_op = match op \{\s*None => \{\s*let numerator = ([^;]*);\s*let denominator = ([^;]*);\s*if rng\.gen_bool\(([^{]*?)\) \{"
+            r".*?if ([^{]*?) \{\s*let op = Self::Op::diagonal\(vars, b, substate, constant\);\s*Some\(Some\(op\)\)\s*\} else \{\s*None\s*\}\s*\} else \{\s*None\s*\}\s*\}\s*"
+            r"Some\(op\) if op\.is_diagonal\(\) => \{\s*let numerator = ([^;]*);\s*let denominator = ([^;]*);\s*if rng\.gen_bool\(([^{]*?)\) \{\s*Some\(None\)\s*\} else \{\s*None\s*\}\s*\}",
+            body, re.S)
+        if not sk:
+            raise Unknown(site, "the `match op { None => { let numerator; let denominator; if rng.gen_bool(..) {… if <test> {insert} …} } Some(op) if op.is_diagonal() => { let numerator; let denominator; if rng.gen_bool(..) {remove} } …` skeleton")
+        if len(re.findall(r"let numerator = ", body)) != 2 or len(re.findall(r"let denominator = ", body)) != 2 or len(re.findall(r"gen_bool", body)) != 2:
+            raise Unknown(site, "expected exactly two numerator / denominator / gen_bool occurrences")
+        rw = [("bond_weights.total().unwrap()", "total")]
+        g.translate("hb_insert_numerator", site, src, base + sk.start(1), sk.group(1), parse_expr(normalise(sk.group(1), rw, site, required=[rw[0][0]]), site),
+                    [("beta", "Rat"), ("total", "Rat")], "`numerator` of the heat-bath insertion gate; `total` = `bond_weights.total().unwrap()`", want="Rat")
+        g.translate("hb_insert_denominator", site, src, base + sk.start(2), sk.group(2), parse_expr(sk.group(2), site),
+                    [("cutoff", "Nat"), ("n", "Nat"), ("numerator", "Rat")], "`denominator` of the heat-bath insertion gate", want="Rat")
+        g.translate("hb_insert_gate", site, src, base + sk.start(3), sk.group(3), parse_expr(sk.group(3), site),
+                    [("numerator", "Rat"), ("denominator", "Rat")], "argument of the insertion gate's `rng.gen_bool(…)`", want="Rat")
+        g.translate("hb_insert_test", site, src, base + sk.start(4), sk.group(4), parse_expr(sk.group(4), site),
+                    [("p", "Rat"), ("maxweight", "Rat"), ("weight", "Rat")], "the rejection test after the weighted bond choice", want="Bool")
+        g.translate("hb_remove_numerator", site, src, base + sk.start(5), sk.group(5), parse_expr(sk.group(5), site),
+                    [("cutoff", "Nat"), ("n", "Nat")], "`numerator` of the heat-bath removal gate", want="Rat")
+        g.translate("hb_remove_denominator", site, src, base + sk.start(6), sk.group(6), parse_expr(normalise(sk.group(6), rw, site, required=[rw[0][0]]), site),
+                    [("numerator", "Rat"), ("beta", "Rat"), ("total", "Rat")], "`denominator` of the heat-bath removal gate", want="Rat")
+        g.translate("hb_remove_gate", site, src, base + sk.start(7), sk.group(7), parse_expr(sk.group(7), site),
+                    [("numerator", "Rat"), ("denominator", "Rat")], "argument of the removal gate's `rng.gen_bool(…)`", want="Rat")
+
+    g.section(['HeatBath'], _sec_9)
 
     # ---- 10. swap_on_chunks --------------------------------------------------------------------
-    src = g.file(TEMPER)
-    fname = "swap_on_chunks"
-    site = TEMPER + "::" + fname
-    f = src.fn(fname, site)
-    sig = " ".join(f["sig"].split())
-    if not re.search(r"graph_beta_a: &'a mut \(Q, f64\), graph_beta_b: &'a mut \(Q, f64\), p: f64, evaluate_hamiltonians: bool, \) -> bool", sig):
-        raise Unknown(site, "signature shape")
-    body = src.body(f)
-    pre = re.match(r"\s*let \(ga, ba\) = graph_beta_a;\s*let \(gb, bb\) = graph_beta_b;\s*", body)
-    if not pre:
-        raise Unknown(site, "the two destructuring bindings `let (ga, ba) = graph_beta_a; let (gb, bb) = graph_beta_b;`")
-    rest = body[pre.end():]
-    if rest.count("ga.swap_graphs(gb);") != 1:
-        raise Unknown(site, "expected exactly one `ga.swap_graphs(gb);`")
-    rest2 = re.sub(r"ga\.swap_graphs\(gb\);\s*", "", rest)
-    rw = [("ga.relative_weight(gb)", "relw_ab"), ("gb.relative_weight(ga)", "relw_ba"), ("gb.get_n()", "n_b"), ("ga.get_n()", "n_a"), ("*ba", "ba"), ("*bb", "bb")]
-    txt = rest2
-    for old, new in rw:
-        if old not in txt:
-            raise Unknown(site, "expected the spelling `%s`" % old)
-        txt = txt.replace(old, new)
-    ast = parse_block_body(txt, site)
-    g.translate("swap_on_chunks", site, src, f["start"], src.src[f["start"]:f["body1"] + 1], ast,
-                [("relw_ab", "Rat"), ("relw_ba", "Rat"), ("n_a", "Nat"), ("n_b", "Nat"), ("ba", "Rat"), ("bb", "Rat"), ("p", "Rat"), ("evaluate_hamiltonians", "Bool")],
-                "`swap_on_chunks` (returns whether the swap happens; the effect `ga.swap_graphs(gb)` of the true branch is dropped): "
-                "`relw_ab` = `ga.relative_weight(gb)`, `relw_ba` = `gb.relative_weight(ga)`, `n_a`/`n_b` = `ga.get_n()`/`gb.get_n()`, `ba`/`bb` = `*ba`/`*bb`",
-                want="Bool", what=fname)
-
-    # ---- 12. QmcIsingGraph::hamiltonian: dispatch on the bond index -----------------------------
-    src = g.file(ISING)
-    fname = "hamiltonian"
-    site = ISING + "::" + fname
-    f = src.fn(fname, site)
-    flat = " ".join(src.body(f).split())
-    sk = re.fullmatch(
-        r"match bond \{ bond if ([^{}]*?) => \{ debug_assert_eq!\(vars\.len\(\), 2\); two_site_hamiltonian\( \(input_state\[0\], input_state\[1\]\), \(output_state\[0\], output_state\[1\]\), info\.edges\[bond\]\.1, \) \} "
-        r"bond if ([^{}]*?) => \{ debug_assert_eq!\(vars\.len\(\), 1\); transverse_hamiltonian\(input_state\[0\], output_state\[0\], info\.transverse\) \} "
-        r"bond if ([^{}]*?) => \{ debug_assert_eq!\(vars\.len\(\), 1\); longitudinal_hamiltonian\(input_state\[0\], output_state\[0\], info\.longitudinal\) \} "
-        r"_ => unreachable!\(\), \}", flat)
-    if not sk:
-        raise Unknown(site, "the `match bond { bond if <c1> => two_site_hamiltonian((in[0], in[1]), (out[0], out[1]), info.edges[bond].1), bond if <c2> => "
-                            "transverse_hamiltonian(in[0], out[0], info.transverse), bond if <c3> => longitudinal_hamiltonian(in[0], out[0], info.longitudinal), _ => unreachable!() }` skeleton")
-    rw = [("info.edges.len()", "edges_len"), ("info.nvars", "nvars")]
-    conds = [parse_expr(normalise(sk.group(i), rw, site, required=["info.edges.len()"]), site) for i in (1, 2, 3)]
-    ast = ("if", conds[0], ("num", "Nat", Fraction(0)), ("if", conds[1], ("num", "Nat", Fraction(1)), ("if", conds[2], ("num", "Nat", Fraction(2)), ("num", "Nat", Fraction(3)))))
-    g.translate("hamiltonian_dispatch", site, src, f["start"], src.src[f["start"]:f["body1"] + 1], ast, [("bond", "Nat"), ("edges_len", "Nat"), ("nvars", "Nat")],
-                "which arm of `QmcIsingGraph::hamiltonian`'s `match bond { bond if … }` is taken: 0 = `two_site_hamiltonian((in[0], in[1]), (out[0], out[1]), "
-                "edges[bond].1)`, 1 = `transverse_hamiltonian(in[0], out[0], transverse)`, 2 = `longitudinal_hamiltonian(in[0], out[0], longitudinal)`, "
-                "3 = `unreachable!()` (the arms' calls are checked literally)", want="Nat", what=fname)
-    f2 = src.fn("make_haminfo", ISING + "::make_haminfo")
-    if " ".join(src.body(f2).split()) != "HamInfo { edges: &self.edges, transverse: self.transverse, longitudinal: self.longitudinal, nvars: self.get_nvars(), }":
-        raise Unknown(ISING + "::make_haminfo", "body is no longer the field-by-field HamInfo literal")
-
-    # ---- 13. bonds_fn (bond index -> variables, constant flag), four sites ---------------------
-    ms = all_matches(src, r"let bonds_fn = \|b: usize\| -> (\(&\[usize\], bool\)|&\[usize\]) \{", ISING)
-    where = [src.enclosing(m.start()) for m in ms]
-    expect = ["single_diagonal_step", "single_rvb_sweep", "set_enable_heatbath", "timestep"]
-    if where != expect:
-        raise Unknown(ISING + "::bonds_fn", "`let bonds_fn = |b: usize| -> … {` expected exactly in %s, found in %s" % (expect, where))
-    if len(re.findall(r"\n\s*vars: \(0\.\.nvars\)\.collect\(\),(?=\n)", src.src)) != 1:
-        raise Unknown(ISING + "::new_with_rng_with_manager_hook", "`vars: (0..nvars).collect(),` (so that `vars[b] = b`)")
-    terms = []
-    for m, fn in zip(ms, where):
-        site = "%s::%s::bonds_fn" % (ISING, fn)
-        i0 = m.end() - 1
-        i1 = match_brace(src.src, i0, site)
-        text = src.src[i0:i1 + 1]
-        fbody = src.body(src.fn(fn, site))
-        if len(re.findall(r"let vars = &self\.vars;", fbody)) != 1:
-            raise Unknown(site, "expected exactly one `let vars = &self.vars;` in the function")
-        with_flag = m.group(1) != "&[usize]"
-        if with_flag:
-            rw = [("(&edges[b].0, false)", "((false, false), b)"), ("(&vars[b..b + 1], true)", "((true, true), b)"), ("(&vars[b..b + 1], false)", "((true, false), b)")]
-        else:
-            rw = [("&edges[b].0", "((false, false), b)"), ("&vars[b..b + 1]", "((true, CONST), b)")]
-        txt = text
+    def _sec_10():
+        src = g.file(TEMPER)
+        fname = "swap_on_chunks"
+        site = TEMPER + "::" + fname
+        f = src.fn(fname, site)
+        sig = " ".join(f["sig"].split())
+        if not re.search(r"graph_beta_a: &'a mut \(Q, f64\), graph_beta_b: &'a mut \(Q, f64\), p: f64, evaluate_hamiltonians: bool, \) -> bool", sig):
+            raise Unknown(site, "signature shape")
+        body = src.body(f)
+        pre = re.match(r"\s*let \(ga, ba\) = graph_beta_a;\s*let \(gb, bb\) = graph_beta_b;\s*", body)
+        if not pre:
+            raise Unknown(site, "the two destructuring bindings `let (ga, ba) = graph_beta_a; let (gb, bb) = graph_beta_b;`")
+        rest = body[pre.end():]
+        if rest.count("ga.swap_graphs(gb);") != 1:
+            raise Unknown(site, "expected exactly one `ga.swap_graphs(gb);`")
+        rest2 = re.sub(r"ga\.swap_graphs\(gb\);\s*", "", rest)
+        rw = [("ga.relative_weight(gb)", "relw_ab"), ("gb.relative_weight(ga)", "relw_ba"), ("gb.get_n()", "n_b"), ("ga.get_n()", "n_a"), ("*ba", "ba"), ("*bb", "bb")]
+        txt = rest2
         for old, new in rw:
-            if txt.count(old) < 1:
+            if old not in txt:
                 raise Unknown(site, "expected the spelling `%s`" % old)
             txt = txt.replace(old, new)
-        if not with_flag:
-            # the heat-bath table builder takes only the variables: the constant flag is not part of this closure; to compare
-            # the four sites the flag of the other three is filled in (first single-variable branch true, second false)
-            if txt.count("CONST") != 2:
-                raise Unknown(site, "expected exactly two single-variable branches")
-            txt = txt.replace("CONST", "true", 1).replace("CONST", "false", 1)
-        txt = normalise(txt, [("edges.len()", "edges_len")], site, required=["edges.len()"])
-        ast = parse_expr(txt, site)
-        body_, _ = g.translate("bonds_fn_" + fn, site, src, m.start(), src.src[m.start():i1 + 1], ast, [("b", "Nat"), ("edges_len", "Nat"), ("nvars", "Nat")],
-                               "`bonds_fn` of `%s`: `((single, constant), k)` — `single = false`: the variables of edge `k` (`&edges[k].0`); `single = true`: the one "
-                               "variable `vars[k] = k` (`&vars[k..k + 1]`); `constant` = the flag returned with it%s" % (fn, "" if with_flag else " (this closure returns no flag: filled in as at the other sites)"),
-                               want=("tuple", ("tuple", "Bool", "Bool"), "Nat"))
-        terms.append((site, body_))
-    same(terms, "bonds_fn")
+        ast = parse_block_body(txt, site)
+        g.translate("swap_on_chunks", site, src, f["start"], src.src[f["start"]:f["body1"] + 1], ast,
+                    [("relw_ab", "Rat"), ("relw_ba", "Rat"), ("n_a", "Nat"), ("n_b", "Nat"), ("ba", "Rat"), ("bb", "Rat"), ("p", "Rat"), ("evaluate_hamiltonians", "Bool")],
+                    "`swap_on_chunks` (returns whether the swap happens; the effect `ga.swap_graphs(gb)` of the true branch is dropped): "
+                    "`relw_ab` = `ga.relative_weight(gb)`, `relw_ba` = `gb.relative_weight(ga)`, `n_a`/`n_b` = `ga.get_n()`/`gb.get_n()`, `ba`/`bb` = `*ba`/`*bb`",
+                    want="Bool", what=fname)
+
+    g.section(['Tempering'], _sec_10)
+
+    # ---- 12. QmcIsingGraph::hamiltonian: dispatch on the bond index -----------------------------
+    def _sec_12():
+        src = g.file(ISING)
+        fname = "hamiltonian"
+        site = ISING + "::" + fname
+        f = src.fn(fname, site)
+        flat = " ".join(src.body(f).split())
+        sk = re.fullmatch(
+            r"match bond \{ bond if ([^{}]*?) => \{ debug_assert_eq!\(vars\.len\(\), 2\); two_site_hamiltonian\( \(input_state\[0\], input_state\[1\]\), \(output_state\[0\], output_state\[1\]\), info\.edges\[bond\]\.1, \) \} "
+            r"bond if ([^{}]*?) => \{ debug_assert_eq!\(vars\.len\(\), 1\); transverse_hamiltonian\(input_state\[0\], output_state\[0\], info\.transverse\) \} "
+            r"bond if ([^{}]*?) => \{ debug_assert_eq!\(vars\.len\(\), 1\); longitudinal_hamiltonian\(input_state\[0\], output_state\[0\], info\.longitudinal\) \} "
+            r"_ => unreachable!\(\), \}", flat)
+        if not sk:
+            raise Unknown(site, "the `match bond { bond if <c1> => two_site_hamiltonian((in[0], in[1]), (out[0], out[1]), info.edges[bond].1), bond if <c2> => "
+                                "transverse_hamiltonian(in[0], out[0], info.transverse), bond if <c3> => longitudinal_hamiltonian(in[0], out[0], info.longitudinal), _ => unreachable!() }` skeleton")
+        rw = [("info.edges.len()", "edges_len"), ("info.nvars", "nvars")]
+        conds = [parse_expr(normalise(sk.group(i), rw, site, required=["info.edges.len()"]), site) for i in (1, 2, 3)]
+        ast = ("if", conds[0], ("num", "Nat", Fraction(0)), ("if", conds[1], ("num", "Nat", Fraction(1)), ("if", conds[2], ("num", "Nat", Fraction(2)), ("num", "Nat", Fraction(3)))))
+        g.translate("hamiltonian_dispatch", site, src, f["start"], src.src[f["start"]:f["body1"] + 1], ast, [("bond", "Nat"), ("edges_len", "Nat"), ("nvars", "Nat")],
+                    "which arm of `QmcIsingGraph::hamiltonian`'s `match bond { bond if … }` is taken: 0 = `two_site_hamiltonian((in[0], in[1]), (out[0], out[1]), "
+                    "edges[bond].1)`, 1 = `transverse_hamiltonian(in[0], out[0], transverse)`, 2 = `longitudinal_hamiltonian(in[0], out[0], longitudinal)`, "
+                    "3 = `unreachable!()` (the arms' calls are checked literally)", want="Nat", what=fname)
+        f2 = src.fn("make_haminfo", ISING + "::make_haminfo")
+        if " ".join(src.body(f2).split()) != "HamInfo { edges: &self.edges, transverse: self.transverse, longitudinal: self.longitudinal, nvars: self.get_nvars(), }":
+            raise Unknown(ISING + "::make_haminfo", "body is no longer the field-by-field HamInfo literal")
+
+    g.section(['IsingHam'], _sec_12)
+
+    # ---- 13. bonds_fn (bond index -> variables, constant flag), four sites ---------------------
+    def _sec_13():
+        groups = ['IsingHam', 'Rvb', 'HeatBathIsing']
+        src = g.file(ISING)
+        ms = all_matches(src, r"let bonds_fn = \|b: usize\| -> (\(&\[usize\], bool\)|&\[usize\]) \{", ISING)
+        where = [src.enclosing(m.start()) for m in ms]
+        expect = ["single_diagonal_step", "single_rvb_sweep", "set_enable_heatbath", "timestep"]
+        if where != expect:
+            raise Unknown(ISING + "::bonds_fn", "`let bonds_fn = |b: usize| -> … {` expected exactly in %s, found in %s" % (expect, where))
+        if len(re.findall(r"\n\s*vars: \(0\.\.nvars\)\.collect\(\),(?=\n)", src.src)) != 1:
+            raise Unknown(ISING + "::new_with_rng_with_manager_hook", "`vars: (0..nvars).collect(),` (so that `vars[b] = b`)")
+        items = []
+        for m, fn in zip(ms, where):
+            with g.tolerate(groups) as t:
+                site = "%s::%s::bonds_fn" % (ISING, fn)
+                name = t.name = "bonds_fn_" + fn
+                i0 = m.end() - 1
+                i1 = match_brace(src.src, i0, site)
+                text = src.src[i0:i1 + 1]
+                fbody = src.body(src.fn(fn, site))
+                if len(re.findall(r"let vars = &self\.vars;", fbody)) != 1:
+                    raise Unknown(site, "expected exactly one `let vars = &self.vars;` in the function")
+                with_flag = m.group(1) != "&[usize]"
+                if with_flag:
+                    rw = [("(&edges[b].0, false)", "((false, false), b)"), ("(&vars[b..b + 1], true)", "((true, true), b)"), ("(&vars[b..b + 1], false)", "((true, false), b)")]
+                else:
+                    rw = [("&edges[b].0", "((false, false), b)"), ("&vars[b..b + 1]", "((true, CONST), b)")]
+                txt = text
+                for old, new in rw:
+                    if txt.count(old) < 1:
+                        raise Unknown(site, "expected the spelling `%s`" % old)
+                    txt = txt.replace(old, new)
+                if not with_flag:
+                    # the heat-bath table builder takes only the variables: the constant flag is not part of this closure; to compare
+                    # the four sites the flag of the other three is filled in (first single-variable branch true, second false)
+                    if txt.count("CONST") != 2:
+                        raise Unknown(site, "expected exactly two single-variable branches")
+                    txt = txt.replace("CONST", "true", 1).replace("CONST", "false", 1)
+                txt = normalise(txt, [("edges.len()", "edges_len")], site, required=["edges.len()"])
+                ast = parse_expr(txt, site)
+                body_, _ = g.translate(name, site, src, m.start(), src.src[m.start():i1 + 1], ast, [("b", "Nat"), ("edges_len", "Nat"), ("nvars", "Nat")],
+                                       "`bonds_fn` of `%s`: `((single, constant), k)` — `single = false`: the variables of edge `k` (`&edges[k].0`); `single = true`: the one "
+                                       "variable `vars[k] = k` (`&vars[k..k + 1]`); `constant` = the flag returned with it%s" % (fn, "" if with_flag else " (this closure returns no flag: filled in as at the other sites)"),
+                                       want=("tuple", ("tuple", "Bool", "Bool"), "Nat"))
+                items.append((site, body_, name, DEF_GROUP[name]))
+        same(g, items, "bonds_fn")
+
+    g.section(['IsingHam', 'Rvb', 'HeatBathIsing'], _sec_13)
 
     # ---- 14. the three matrices of into_qmc ----------------------------------------------------
-    fname = "into_qmc"
-    site = ISING + "::" + fname
-    f = src.fn(fname, site, expect=2, nth=0)   # the second `fn into_qmc` with a body is SerializeQmcGraph::into_qmc (restore)
-    flat = " ".join(src.body(f).split())
-    sk = re.search(
-        r"let transverse = self\.transverse; let longitudinal = self\.longitudinal; "
-        r"self\.edges\.into_iter\(\)\.for_each\(\|\(vars, j\)\| \{ qmc\.make_diagonal_interaction_and_offset\((vec!\[[^\]]*\]), vars\) \.unwrap\(\) \}\); "
-        r"\(0\.\.nvars\)\.for_each\(\|var\| \{ qmc\.make_interaction\( (vec!\[[^\]]*\]), vec!\[var\], \) \.unwrap\(\) \}\); "
-        r"if [^{]* \{ \(0\.\.nvars\)\.for_each\(\|var\| \{ qmc\.make_interaction_and_offset\( (vec!\[[^\]]*\]), vec!\[var\], \) \.unwrap\(\) \}\); \} "
-        r"qmc\.set_manager\(self\.op_manager\.unwrap\(\)\); qmc\.set_cutoff\(self\.cutoff\); qmc$", flat)
-    if not sk:
-        raise Unknown(site, "the edges / transverse / (guarded) longitudinal `for_each … make_*interaction*(vec![…], …).unwrap()` skeleton followed by set_manager, set_cutoff")
-    for i, (nm, var, doc) in enumerate((("into_qmc_edge_matrix", "j", "diagonal table handed to `make_diagonal_interaction_and_offset` per edge"),
-                                        ("into_qmc_transverse_matrix", "transverse", "full matrix handed to `make_interaction` per variable"),
-                                        ("into_qmc_field_matrix", "longitudinal", "full matrix handed to `make_interaction_and_offset` per variable (only under the field guard)"))):
-        g.translate(nm, site, src, f["start"], sk.group(i + 1), parse_expr(sk.group(i + 1), site), [(var, "Rat")], doc + " in `into_qmc`", want=("list", "Rat"), what=fname)
+    def _sec_14():
+        src = g.file(ISING)
+        fname = "into_qmc"
+        site = ISING + "::" + fname
+        f = src.fn(fname, site, expect=2, nth=0)   # the second `fn into_qmc` with a body is SerializeQmcGraph::into_qmc (restore)
+        flat = " ".join(src.body(f).split())
+        sk = re.search(
+            r"let transverse = self\.transverse; let longitudinal = self\.longitudinal; "
+            r"self\.edges\.into_iter\(\)\.for_each\(\|\(vars, j\)\| \{ qmc\.make_diagonal_interaction_and_offset\((vec!\[[^\]]*\]), vars\) \.unwrap\(\) \}\); "
+            r"\(0\.\.nvars\)\.for_each\(\|var\| \{ qmc\.make_interaction\( (vec!\[[^\]]*\]), vec!\[var\], \) \.unwrap\(\) \}\); "
+            r"if [^{]* \{ \(0\.\.nvars\)\.for_each\(\|var\| \{ qmc\.make_interaction_and_offset\( (vec!\[[^\]]*\]), vec!\[var\], \) \.unwrap\(\) \}\); \} "
+            r"qmc\.set_manager\(self\.op_manager\.unwrap\(\)\); qmc\.set_cutoff\(self\.cutoff\); qmc$", flat)
+        if not sk:
+            raise Unknown(site, "the edges / transverse / (guarded) longitudinal `for_each … make_*interaction*(vec![…], …).unwrap()` skeleton followed by set_manager, set_cutoff")
+        for i, (nm, var, doc) in enumerate((("into_qmc_edge_matrix", "j", "diagonal table handed to `make_diagonal_interaction_and_offset` per edge"),
+                                            ("into_qmc_transverse_matrix", "transverse", "full matrix handed to `make_interaction` per variable"),
+                                            ("into_qmc_field_matrix", "longitudinal", "full matrix handed to `make_interaction_and_offset` per variable (only under the field guard)"))):
+            g.translate(nm, site, src, f["start"], sk.group(i + 1), parse_expr(sk.group(i + 1), site), [(var, "Rat")], doc + " in `into_qmc`", want=("list", "Rat"), what=fname)
+
+    g.section(['Convert'], _sec_14)
 
     # ---- 15. replicated closures of qmc_ising.rs / qmc_runner.rs ---------------------------------
     replicated_closures(g, ISING, RUNNER)
 
     # ---- 11. get_mat_var_size: the even-exponent rule ------------------------------------------
-    src = g.file(RUNNER)
-    fname = "get_mat_var_size"
-    site = RUNNER + "::" + fname
-    f = src.fn(fname, site)
-    if " ".join(f["sig"].split()) != "fn get_mat_var_size(mat_len: usize) -> Result<usize, ()>":
-        raise Unknown(site, "signature shape")
-    m = re.fullmatch(r"\s*get_power_of_two\(mat_len\)\.and_then\(\|i\| (.*)\)\s*", src.body(f), re.S)
-    if not m:
-        raise Unknown(site, "body is no longer `get_power_of_two(mat_len).and_then(|i| <rule>)`")
-    g.translate("mat_var_size_rule", site, src, f["start"], src.src[f["start"]:f["body1"] + 1], parse_expr(m.group(1), site), [("i", "Nat")],
-                "the closure of `get_mat_var_size`: `get_power_of_two(mat_len).and_then(|i| …)`; `Ok(x)` ↦ `some x`, `Err(())` ↦ `none`",
-                want=("opt", "Nat"), what=fname)
+    def _sec_11():
+        src = g.file(RUNNER)
+        fname = "get_mat_var_size"
+        site = RUNNER + "::" + fname
+        f = src.fn(fname, site)
+        if " ".join(f["sig"].split()) != "fn get_mat_var_size(mat_len: usize) -> Result<usize, ()>":
+            raise Unknown(site, "signature shape")
+        m = re.fullmatch(r"\s*get_power_of_two\(mat_len\)\.and_then\(\|i\| (.*)\)\s*", src.body(f), re.S)
+        if not m:
+            raise Unknown(site, "body is no longer `get_power_of_two(mat_len).and_then(|i| <rule>)`")
+        g.translate("mat_var_size_rule", site, src, f["start"], src.src[f["start"]:f["body1"] + 1], parse_expr(m.group(1), site), [("i", "Nat")],
+                    "the closure of `get_mat_var_size`: `get_power_of_two(mat_len).and_then(|i| …)`; `Ok(x)` ↦ `some x`, `Err(())` ↦ `none`",
+                    want=("opt", "Nat"), what=fname)
+
+    g.section(['Size'], _sec_11)
+
     return g
 
 
@@ -1262,183 +1445,237 @@ def closure_after(src, off, site):
 
 
 def replicated_closures(g, ISING, RUNNER):
-    src = g.file(ISING)
-    rsrc = g.file(RUNNER)
-
     # (a) the field-bond test of every cluster-weight / ising-ratio closure -----------------------
-    ms = all_matches(src, r"let is_long_field_bond = ([^;]*);", ISING)
-    expect_sites(src, ms, ["single_cluster_step", "single_rvb_sweep", "timestep", "timestep"], "is_long_field_bond closures")
-    terms = []
-    names = []
-    for m in ms:
-        fn = src.enclosing(m.start())
-        before = " ".join(src.src[max(0, m.start() - 200):m.start()].split())
-        if before.endswith("|op| { let bond = op.get_bond();"):
-            kind = "ising_ratio"
-        elif before.endswith("Some(|node: &M::Node| -> f64 { let bond = node.get_op_ref().get_bond();"):
-            kind = "cluster_weight"
-        else:
-            raise Unknown("%s::%s::is_long_field_bond" % (ISING, fn), "closure head is neither `|op| { let bond = op.get_bond();` nor `Some(|node: &M::Node| -> f64 { let bond = node.get_op_ref().get_bond();`")
-        name = "%s_%s" % (kind, fn)
-        site = "%s::%s::%s closure" % (ISING, fn, kind)
-        rest = src.src[m.end():]
-        mm = re.match(r"\s*if ", rest)
-        if not mm:
-            raise Unknown(site, "`let is_long_field_bond = …;` is not followed by the `if` that yields the closure's value")
-        # the if/else expression extends to the brace that closes the closure: take up to the closing brace of the else block
-        j = m.end() + mm.start()
-        i0 = src.src.index("{", j)
-        i1 = match_brace(src.src, i0, site)
-        mm2 = re.match(r"\s*else\s*", src.src[i1 + 1:])
-        if not mm2:
-            raise Unknown(site, "`if` without `else`")
-        e0 = i1 + 1 + mm2.end()
-        if src.src[e0] != "{":
-            raise Unknown(site, "`else` not followed by a block")
-        e1 = match_brace(src.src, e0, site)
-        tail = " ".join(src.src[e1 + 1:e1 + 40].split())
-        if not (tail.startswith("},") or tail.startswith("}),")):
-            raise Unknown(site, "the `if … else …` is not the closure's final expression")
-        ifexpr, ndbg = strip_debug_asserts(src.src[j:e1 + 1], site)
-        text = src.src[m.start():e1 + 1]
-        fbody = src.body(src.fn(fn, site))
-        if len(re.findall(r"let nedges = (?:self\.)?edges\.len\(\);", fbody)) != 1:
-            raise Unknown(site, "expected exactly one `let nedges = [self.]edges.len();` in the function")
-        if len(re.findall(r"let nvars = (?:self\.get_nvars\(\)|state\.len\(\));", fbody)) != 1:
-            raise Unknown(site, "expected exactly one `let nvars = self.get_nvars() | state.len();` in the function")
-        ast = parse_block_body("let is_long_field_bond = %s; %s" % (m.group(1), ifexpr), site)
-        if name in names:
-            raise Unknown(site, "two %s closures in `%s`" % (kind, fn))
-        names.append(name)
-        em_doc = ("the `%s` closure of `%s` as a function of the operator's bond index (`%d` debug assertions dropped): weight ratio of the "
-                  "operator under a flip of its variable — 1 unless it is a longitudinal-field bond" % (kind, fn, ndbg))
-        body_, _ = g.translate(name, site, src, m.start(), text, ast, [("bond", "Nat"), ("nedges", "Nat"), ("nvars", "Nat")], em_doc, want="Rat")
-        terms.append((site, body_))
-    if sorted(names) != ["cluster_weight_single_cluster_step", "cluster_weight_timestep", "ising_ratio_single_rvb_sweep", "ising_ratio_timestep"]:
-        raise Unknown(ISING + "::is_long_field_bond closures", "expected cluster_weight in single_cluster_step, timestep and ising_ratio in single_rvb_sweep, timestep; found %s" % names)
-    same(terms, "field-bond closure (`bond >= nedges + nvars` ⇒ 0.0 else 1.0)")
+    def _sec_a():
+        groups = ['ClusterIsing', 'Rvb']
+        src = g.file(ISING)
+        rsrc = g.file(RUNNER)
+        ms = all_matches(src, r"let is_long_field_bond = ([^;]*);", ISING)
+        expect_sites(src, ms, ["single_cluster_step", "single_rvb_sweep", "timestep", "timestep"], "is_long_field_bond closures")
+        items = []
+        names = []
+        for m in ms:
+            with g.tolerate(groups) as t:
+                fn = src.enclosing(m.start())
+                before = " ".join(src.src[max(0, m.start() - 200):m.start()].split())
+                if before.endswith("|op| { let bond = op.get_bond();"):
+                    kind = "ising_ratio"
+                elif before.endswith("Some(|node: &M::Node| -> f64 { let bond = node.get_op_ref().get_bond();"):
+                    kind = "cluster_weight"
+                else:
+                    raise Unknown("%s::%s::is_long_field_bond" % (ISING, fn), "closure head is neither `|op| { let bond = op.get_bond();` nor `Some(|node: &M::Node| -> f64 { let bond = node.get_op_ref().get_bond();`")
+                name = t.name = "%s_%s" % (kind, fn)
+                site = "%s::%s::%s closure" % (ISING, fn, kind)
+                rest = src.src[m.end():]
+                mm = re.match(r"\s*if ", rest)
+                if not mm:
+                    raise Unknown(site, "`let is_long_field_bond = …;` is not followed by the `if` that yields the closure's value")
+                # the if/else expression extends to the brace that closes the closure: take up to the closing brace of the else block
+                j = m.end() + mm.start()
+                i0 = src.src.index("{", j)
+                i1 = match_brace(src.src, i0, site)
+                mm2 = re.match(r"\s*else\s*", src.src[i1 + 1:])
+                if not mm2:
+                    raise Unknown(site, "`if` without `else`")
+                e0 = i1 + 1 + mm2.end()
+                if src.src[e0] != "{":
+                    raise Unknown(site, "`else` not followed by a block")
+                e1 = match_brace(src.src, e0, site)
+                tail = " ".join(src.src[e1 + 1:e1 + 40].split())
+                if not (tail.startswith("},") or tail.startswith("}),")):
+                    raise Unknown(site, "the `if … else …` is not the closure's final expression")
+                ifexpr, ndbg = strip_debug_asserts(src.src[j:e1 + 1], site)
+                text = src.src[m.start():e1 + 1]
+                fbody = src.body(src.fn(fn, site))
+                if len(re.findall(r"let nedges = (?:self\.)?edges\.len\(\);", fbody)) != 1:
+                    raise Unknown(site, "expected exactly one `let nedges = [self.]edges.len();` in the function")
+                if len(re.findall(r"let nvars = (?:self\.get_nvars\(\)|state\.len\(\));", fbody)) != 1:
+                    raise Unknown(site, "expected exactly one `let nvars = self.get_nvars() | state.len();` in the function")
+                ast = parse_block_body("let is_long_field_bond = %s; %s" % (m.group(1), ifexpr), site)
+                if name in names:
+                    raise Unknown(site, "two %s closures in `%s`" % (kind, fn))
+                names.append(name)
+                em_doc = ("the `%s` closure of `%s` as a function of the operator's bond index (`%d` debug assertions dropped): weight ratio of the "
+                          "operator under a flip of its variable — 1 unless it is a longitudinal-field bond" % (kind, fn, ndbg))
+                body_, _ = g.translate(name, site, src, m.start(), text, ast, [("bond", "Nat"), ("nedges", "Nat"), ("nvars", "Nat")], em_doc, want="Rat")
+                items.append((site, body_, name, DEF_GROUP[name]))
+        if not set(names) <= {"cluster_weight_single_cluster_step", "cluster_weight_timestep", "ising_ratio_single_rvb_sweep", "ising_ratio_timestep"}:
+            raise Unknown(ISING + "::is_long_field_bond closures", "expected cluster_weight in single_cluster_step, timestep and ising_ratio in single_rvb_sweep, timestep; found %s" % names)
+        same(g, items, "field-bond closure (`bond >= nedges + nvars` ⇒ 0.0 else 1.0)")
+
+    g.section(['ClusterIsing', 'Rvb'], _sec_a)
 
     # (b) the RVB diagonal-edge-weight closure, four copies ---------------------------------------
-    ms = all_matches(src, r"\|bond, sa, sb\| \{", ISING)
-    expect_sites(src, ms, ["single_rvb_sweep", "single_rvb_sweep", "timestep", "timestep"], "RVB edge-weight closures `|bond, sa, sb| {`")
-    if len(re.findall(r"\brvb_update(?:_with_ising_weight)?\(", src.src)) != 4:
-        raise Unknown(ISING + "::rvb_update calls", "expected exactly four `rvb_update[_with_ising_weight](` calls")
-    f = src.fn("vars_for_bond", ISING + "::vars_for_bond")
-    if " ".join(src.body(f).split()) != "let e = &self.edges[bond].0; (e[0], e[1])":
-        raise Unknown(ISING + "::vars_for_bond", "body is no longer `let e = &self.edges[bond].0; (e[0], e[1])`")
-    FN_VFB = ("fn", ("Nat",), ("tuple", "Nat", "Nat"))
-    FN_HAM = ("fn", (("list", "Nat"), "Nat", ("list", "Bool"), ("list", "Bool")), "Rat")
-    terms = []
-    count = {}
-    for m in ms:
-        fn = src.enclosing(m.start())
-        count[fn] = count.get(fn, 0) + 1
-        variant = "field" if count[fn] == 1 else "nofield"     # source order: the `h != 0` branch comes first
-        name = "rvb_edge_weight_%s_%s" % (fn, variant)
-        site = "%s::%s::RVB edge-weight closure #%d" % (ISING, fn, count[fn])
-        i0, i1 = closure_after(src, m.end() - 1, site)
-        txt = src.src[i0 + 1:i1]
-        txt = normalise(txt, [("edges.vars_for_bond", "vars_for_bond"), ("ham.hamiltonian", "ham_hamiltonian")], site)
-        ast = parse_block_body(txt, site, uninterp=("vars_for_bond", "ham_hamiltonian"))
-        body_, _ = g.translate(name, site, src, m.start(), src.src[m.start():i1 + 1], ast,
-                               [("vars_for_bond", FN_VFB), ("ham_hamiltonian", FN_HAM), ("bond", "Nat"), ("sa", "Bool"), ("sb", "Bool")],
-                               "the diagonal edge weight closure `|bond, sa, sb| …` handed to `rvb_update%s` in `%s`; `vars_for_bond` = `edges.vars_for_bond`, "
-                               "`ham_hamiltonian` = `ham.hamiltonian` (both uninterpreted)" % ("_with_ising_weight" if variant == "field" else "", fn), want="Rat")
-        terms.append((site, body_))
-    same(terms, "RVB edge-weight closure")
+    def _sec_b():
+        groups = ['Rvb']
+        src = g.file(ISING)
+        rsrc = g.file(RUNNER)
+        ms = all_matches(src, r"\|bond, sa, sb\| \{", ISING)
+        expect_sites(src, ms, ["single_rvb_sweep", "single_rvb_sweep", "timestep", "timestep"], "RVB edge-weight closures `|bond, sa, sb| {`")
+        if len(re.findall(r"\brvb_update(?:_with_ising_weight)?\(", src.src)) != 4:
+            raise Unknown(ISING + "::rvb_update calls", "expected exactly four `rvb_update[_with_ising_weight](` calls")
+        f = src.fn("vars_for_bond", ISING + "::vars_for_bond")
+        if " ".join(src.body(f).split()) != "let e = &self.edges[bond].0; (e[0], e[1])":
+            raise Unknown(ISING + "::vars_for_bond", "body is no longer `let e = &self.edges[bond].0; (e[0], e[1])`")
+        FN_VFB = ("fn", ("Nat",), ("tuple", "Nat", "Nat"))
+        FN_HAM = ("fn", (("list", "Nat"), "Nat", ("list", "Bool"), ("list", "Bool")), "Rat")
+        items = []
+        count = {}
+        for m in ms:
+            fn = src.enclosing(m.start())
+            count[fn] = count.get(fn, 0) + 1
+            with g.tolerate(groups) as t:
+                variant = "field" if count[fn] == 1 else "nofield"     # source order: the `h != 0` branch comes first
+                name = t.name = "rvb_edge_weight_%s_%s" % (fn, variant)
+                site = "%s::%s::RVB edge-weight closure #%d" % (ISING, fn, count[fn])
+                i0, i1 = closure_after(src, m.end() - 1, site)
+                txt = src.src[i0 + 1:i1]
+                txt = normalise(txt, [("edges.vars_for_bond", "vars_for_bond"), ("ham.hamiltonian", "ham_hamiltonian")], site)
+                ast = parse_block_body(txt, site, uninterp=("vars_for_bond", "ham_hamiltonian"))
+                body_, _ = g.translate(name, site, src, m.start(), src.src[m.start():i1 + 1], ast,
+                                       [("vars_for_bond", FN_VFB), ("ham_hamiltonian", FN_HAM), ("bond", "Nat"), ("sa", "Bool"), ("sb", "Bool")],
+                                       "the diagonal edge weight closure `|bond, sa, sb| …` handed to `rvb_update%s` in `%s`; `vars_for_bond` = `edges.vars_for_bond`, "
+                                       "`ham_hamiltonian` = `ham.hamiltonian` (both uninterpreted)" % ("_with_ising_weight" if variant == "field" else "", fn), want="Rat")
+                items.append((site, body_, name, DEF_GROUP[name]))
+        same(g, items, "RVB edge-weight closure")
+
+    g.section(['Rvb'], _sec_b)
 
     # (c) flip probability of the cluster updates and of the free-spin refresh ----------------------
-    terms = []
-    for sr, rel, expect in ((src, ISING, ["single_cluster_step", "single_cluster_step", "timestep", "timestep"]), (rsrc, RUNNER, ["cluster_update"])):
-        ms = all_matches(sr, r"\.flip_each_cluster(_ising_symmetry)?_rng\(\s*([^,()]*),", rel)
-        expect_sites(sr, ms, expect, "flip_each_cluster[_ising_symmetry]_rng calls")
-        if len(re.findall(r"flip_each_cluster\w*\(", sr.src)) != len(expect):
-            raise Unknown(rel + "::flip_each_cluster calls", "a cluster-flip call other than `.flip_each_cluster[_ising_symmetry]_rng(<p>, …`")
-        seen = set()
-        for m in ms:
-            fn = sr.enclosing(m.start())
-            variant = "sym" if m.group(1) else "field"
-            name = "cluster_flip_prob_%s_%s" % (fn, variant)
-            site = "%s::%s::flip_each_cluster%s_rng" % (rel, fn, m.group(1) or "")
-            if name in seen:
-                raise Unknown(site, "called twice in `%s`" % fn)
-            seen.add(name)
-            body_, _ = g.translate(name, site, sr, m.start(2), m.group(0), parse_expr(m.group(2), site), [],
-                                   "flip probability handed to `flip_each_cluster%s_rng` in `%s` (%s)" % (m.group(1) or "", fn, rel), want="Rat")
-            terms.append((site, body_))
-    same(terms, "cluster flip probability")
-    terms = []
-    for sr, rel, expect in ((src, ISING, ["single_cluster_step", "timestep"]), (rsrc, RUNNER, ["flip_free_bits"])):
-        ms = all_matches(sr, r"state\.iter_mut\(\)\.enumerate\(\)\.for_each\(\|\(var, state\)\| \{\s*if !\w+\.does_var_have_ops\(var\) \{\s*\*state = rng\.gen_bool\(([^()]*)\);\s*\}\s*\}\);", rel)
-        expect_sites(sr, ms, expect, "free-spin refresh loops")
-        if len(re.findall(r"gen_bool\(", sr.src)) != len(expect):
-            raise Unknown(rel + "::gen_bool", "a `gen_bool(` call outside the %d free-spin refresh loops" % len(expect))
-        for m in ms:
-            fn = sr.enclosing(m.start())
-            site = "%s::%s::free-spin refresh" % (rel, fn)
-            body_, _ = g.translate("free_refresh_prob_" + fn, site, sr, m.start(1), m.group(0), parse_expr(m.group(1), site), [],
-                                   "probability of the free-spin refresh `if !does_var_have_ops(var) { *state = rng.gen_bool(…) }` in `%s` (%s)" % (fn, rel), want="Rat")
-            terms.append((site, body_))
-    same(terms, "free-spin refresh probability")
+    def _sec_c():
+        groups = ['ClusterIsing', 'Cluster']
+        src = g.file(ISING)
+        rsrc = g.file(RUNNER)
+        items = []
+        for sr, rel, expect in ((src, ISING, ["single_cluster_step", "single_cluster_step", "timestep", "timestep"]), (rsrc, RUNNER, ["cluster_update"])):
+            ms = all_matches(sr, r"\.flip_each_cluster(_ising_symmetry)?_rng\(\s*([^,()]*),", rel)
+            expect_sites(sr, ms, expect, "flip_each_cluster[_ising_symmetry]_rng calls")
+            if len(re.findall(r"flip_each_cluster\w*\(", sr.src)) != len(expect):
+                raise Unknown(rel + "::flip_each_cluster calls", "a cluster-flip call other than `.flip_each_cluster[_ising_symmetry]_rng(<p>, …`")
+            seen = set()
+            for m in ms:
+                with g.tolerate(groups) as t:
+                    fn = sr.enclosing(m.start())
+                    variant = "sym" if m.group(1) else "field"
+                    name = t.name = "cluster_flip_prob_%s_%s" % (fn, variant)
+                    site = "%s::%s::flip_each_cluster%s_rng" % (rel, fn, m.group(1) or "")
+                    if name in seen:
+                        raise Unknown(site, "called twice in `%s`" % fn)
+                    seen.add(name)
+                    body_, _ = g.translate(name, site, sr, m.start(2), m.group(0), parse_expr(m.group(2), site), [],
+                                           "flip probability handed to `flip_each_cluster%s_rng` in `%s` (%s)" % (m.group(1) or "", fn, rel), want="Rat")
+                    items.append((site, body_, name, DEF_GROUP[name]))
+        same(g, items, "cluster flip probability")
+
+    g.section(['ClusterIsing', 'Cluster'], _sec_c)
+
+    # (c') free-spin refresh probability
+    def _sec_c2():
+        groups = ['RefreshIsing', 'RefreshGeneric']
+        src = g.file(ISING)
+        rsrc = g.file(RUNNER)
+        items = []
+        for sr, rel, expect in ((src, ISING, ["single_cluster_step", "timestep"]), (rsrc, RUNNER, ["flip_free_bits"])):
+            ms = all_matches(sr, r"state\.iter_mut\(\)\.enumerate\(\)\.for_each\(\|\(var, state\)\| \{\s*if !\w+\.does_var_have_ops\(var\) \{\s*\*state = rng\.gen_bool\(([^()]*)\);\s*\}\s*\}\);", rel)
+            expect_sites(sr, ms, expect, "free-spin refresh loops")
+            if len(re.findall(r"gen_bool\(", sr.src)) != len(expect):
+                raise Unknown(rel + "::gen_bool", "a `gen_bool(` call outside the %d free-spin refresh loops" % len(expect))
+            for m in ms:
+                with g.tolerate(groups) as t:
+                    fn = sr.enclosing(m.start())
+                    site = "%s::%s::free-spin refresh" % (rel, fn)
+                    name = t.name = "free_refresh_prob_" + fn
+                    body_, _ = g.translate(name, site, sr, m.start(1), m.group(0), parse_expr(m.group(1), site), [],
+                                           "probability of the free-spin refresh `if !does_var_have_ops(var) { *state = rng.gen_bool(…) }` in `%s` (%s)" % (fn, rel), want="Rat")
+                    items.append((site, body_, name, DEF_GROUP[name]))
+        same(g, items, "free-spin refresh probability")
+
+    g.section(['RefreshIsing', 'RefreshGeneric'], _sec_c2)
 
     # (d) steps_to_run -----------------------------------------------------------------------------
-    ms = all_matches(src, r"let steps_to_run = ([^;]*);", ISING)
-    expect_sites(src, ms, ["single_rvb_sweep", "timestep"], "`let steps_to_run = …;`")
-    terms = []
-    for m in ms:
-        fn = src.enclosing(m.start())
-        site = "%s::%s::steps_to_run" % (ISING, fn)
-        txt = m.group(1)
-        if fn == "single_rvb_sweep":
-            mm = re.fullmatch(r"updates_in_sweep\.unwrap_or\((.*)\)", txt, re.S)
-            if not mm:
-                raise Unknown(site, "no longer `updates_in_sweep.unwrap_or(<default>)`")
-            txt = mm.group(1)
-        txt = normalise(txt, [("state.len()", "state_len")], site, required=["state.len()"])
-        body_, _ = g.translate("steps_to_run_" + fn, site, src, m.start(), m.group(0), parse_expr(txt, site), [("state_len", "Nat")],
-                               "number of RVB proposals per sweep in `%s`%s; `state_len` = `state.len()`" % (fn, " (the default of `updates_in_sweep.unwrap_or(…)`)" if fn == "single_rvb_sweep" else ""), want="Nat")
-        terms.append((site, body_))
-    same(terms, "steps_to_run")
+    def _sec_d():
+        groups = ['Rvb']
+        src = g.file(ISING)
+        rsrc = g.file(RUNNER)
+        ms = all_matches(src, r"let steps_to_run = ([^;]*);", ISING)
+        expect_sites(src, ms, ["single_rvb_sweep", "timestep"], "`let steps_to_run = …;`")
+        items = []
+        for m in ms:
+            with g.tolerate(groups) as t:
+                fn = src.enclosing(m.start())
+                site = "%s::%s::steps_to_run" % (ISING, fn)
+                name = t.name = "steps_to_run_" + fn
+                txt = m.group(1)
+                if fn == "single_rvb_sweep":
+                    mm = re.fullmatch(r"updates_in_sweep\.unwrap_or\((.*)\)", txt, re.S)
+                    if not mm:
+                        raise Unknown(site, "no longer `updates_in_sweep.unwrap_or(<default>)`")
+                    txt = mm.group(1)
+                txt = normalise(txt, [("state.len()", "state_len")], site, required=["state.len()"])
+                body_, _ = g.translate(name, site, src, m.start(), m.group(0), parse_expr(txt, site), [("state_len", "Nat")],
+                                       "number of RVB proposals per sweep in `%s`%s; `state_len` = `state.len()`" % (fn, " (the default of `updates_in_sweep.unwrap_or(…)`)" if fn == "single_rvb_sweep" else ""), want="Nat")
+                items.append((site, body_, name, DEF_GROUP[name]))
+        same(g, items, "steps_to_run")
+
+    g.section(['Rvb'], _sec_d)
 
     # (e) the `h` closures --------------------------------------------------------------------------
-    ms = all_matches(src, r"let h = \|vars: &\[usize\], bond: usize, input_state: &\[bool\], output_state: &\[bool\]\| \{", ISING)
-    expect_sites(src, ms, ["single_diagonal_step", "single_rvb_sweep", "set_enable_heatbath", "timestep"], "`let h = |vars, bond, input_state, output_state| {`")
-    if len(re.findall(r"let h = ", src.src)) != 4:
-        raise Unknown(ISING + "::h closures", "a `let h = ` of another shape")
-    FN_H = ("fn", (("list", "Nat"), "Nat", ("list", "Bool"), ("list", "Bool")), "Rat")
-    terms = []
-    for m in ms:
-        fn = src.enclosing(m.start())
-        site = "%s::%s::h closure" % (ISING, fn)
-        i0, i1 = closure_after(src, m.end() - 1, site)
-        fbody = " ".join(src.body(src.fn(fn, site)).split())
-        if fbody.count("let hinfo = HamInfo { edges, transverse, longitudinal, nvars, };") != 1 or fbody.count("let transverse = self.transverse;") != 1:
-            raise Unknown(site, "`let hinfo = HamInfo { edges, transverse, longitudinal, nvars, };` / `let transverse = self.transverse;` in the function")
-        txt = normalise(src.src[i0 + 1:i1], [("Self::hamiltonian(&hinfo,", "hamiltonian_hinfo(")], site, required=["Self::hamiltonian(&hinfo,"])
-        ast = parse_expr(txt, site, uninterp=("hamiltonian_hinfo",))
-        body_, _ = g.translate("h_closure_" + fn, site, src, m.start(), src.src[m.start():i1 + 1], ast,
-                               [("hamiltonian_hinfo", FN_H), ("vars", ("list", "Nat")), ("bond", "Nat"), ("input_state", ("list", "Bool")), ("output_state", ("list", "Bool"))],
-                               "the matrix-element closure `h` of `%s`; `hamiltonian_hinfo` = `Self::hamiltonian(&hinfo, …)` with `hinfo` the `HamInfo` of the sampler's own fields" % fn, want="Rat")
-        terms.append((site, body_))
-    same(terms, "h closure")
+    def _sec_e():
+        groups = ['IsingHam', 'Rvb', 'HeatBathIsing']
+        src = g.file(ISING)
+        rsrc = g.file(RUNNER)
+        ms = all_matches(src, r"let h = \|vars: &\[usize\], bond: usize, input_state: &\[bool\], output_state: &\[bool\]\| \{", ISING)
+        expect_sites(src, ms, ["single_diagonal_step", "single_rvb_sweep", "set_enable_heatbath", "timestep"], "`let h = |vars, bond, input_state, output_state| {`")
+        if len(re.findall(r"let h = ", src.src)) != 4:
+            raise Unknown(ISING + "::h closures", "a `let h = ` of another shape")
+        FN_H = ("fn", (("list", "Nat"), "Nat", ("list", "Bool"), ("list", "Bool")), "Rat")
+        items = []
+        for m in ms:
+            with g.tolerate(groups) as t:
+                fn = src.enclosing(m.start())
+                site = "%s::%s::h closure" % (ISING, fn)
+                name = t.name = "h_closure_" + fn
+                i0, i1 = closure_after(src, m.end() - 1, site)
+                fbody = " ".join(src.body(src.fn(fn, site)).split())
+                if fbody.count("let hinfo = HamInfo { edges, transverse, longitudinal, nvars, };") != 1 or fbody.count("let transverse = self.transverse;") != 1:
+                    raise Unknown(site, "`let hinfo = HamInfo { edges, transverse, longitudinal, nvars, };` / `let transverse = self.transverse;` in the function")
+                txt = normalise(src.src[i0 + 1:i1], [("Self::hamiltonian(&hinfo,", "hamiltonian_hinfo(")], site, required=["Self::hamiltonian(&hinfo,"])
+                ast = parse_expr(txt, site, uninterp=("hamiltonian_hinfo",))
+                body_, _ = g.translate(name, site, src, m.start(), src.src[m.start():i1 + 1], ast,
+                                       [("hamiltonian_hinfo", FN_H), ("vars", ("list", "Nat")), ("bond", "Nat"), ("input_state", ("list", "Bool")), ("output_state", ("list", "Bool"))],
+                                       "the matrix-element closure `h` of `%s`; `hamiltonian_hinfo` = `Self::hamiltonian(&hinfo, …)` with `hinfo` the `HamInfo` of the sampler's own fields" % fn, want="Rat")
+                items.append((site, body_, name, DEF_GROUP[name]))
+        same(g, items, "h closure")
+
+    g.section(['IsingHam', 'Rvb', 'HeatBathIsing'], _sec_e)
 
 
-
-def same(terms, what):
-    """all sites must have produced the same term; the deviating site(s) are the ones outside the largest group"""
+def same(g, items, what):
+    """items: (site, term, definition name or None, group).  All sites must have produced the same term.  The sites outside
+    the largest group of equal terms fail closed (their definition is dropped, the failure is charged to THEIR group);
+    without a majority every site fails.  Returns the majority term (None if there is none).  Never raises."""
     groups = {}
-    for site, t in terms:
+    for site, t, _, _ in items:
         groups.setdefault(t, []).append(site)
-    if len(groups) <= 1:
-        return
-    major = max(groups, key=lambda t: (len(groups[t]), -[x[1] for x in terms].index(t)))
+    if not groups:
+        return None
+    if len(groups) == 1:
+        return items[0][1]
+    terms = [x[1] for x in items]
+    major = max(groups, key=lambda t: (len(groups[t]), -terms.index(t)))
     if sum(1 for t in groups if len(groups[t]) == len(groups[major])) > 1:
-        # no majority (e.g. two sites): name all of them
-        raise Unknown(" / ".join(site for site, _ in terms), "%s: the sites disagree (no majority): %s" % (
-            what, "; ".join("%s `%s`" % (groups[t][0], " ".join(t.split())) for t in groups)))
-    for site, t in terms:
+        msg = "%s: the sites disagree (no majority): %s" % (what, "; ".join("%s `%s`" % (groups[t][0], " ".join(t.split())) for t in groups))
+        for site, t, name, grp in items:
+            if name:
+                g.drop(name)
+            g.fail(site, msg, [grp])
+        return None
+    for site, t, name, grp in items:
         if t != major:
-            raise Unknown(site, "%s differs from the other sites: here `%s`, at %s `%s`" % (what, " ".join(t.split()), groups[major][0], " ".join(major.split())))
+            if name:
+                g.drop(name)
+            g.fail(site, "%s differs from the other sites: here `%s`, at %s `%s`" % (what, " ".join(t.split()), groups[major][0], " ".join(major.split())), [grp])
+    return major
 
 
 PRELUDE = """namespace Qmc.Gen
@@ -1459,37 +1696,48 @@ def render(g):
         "/-",
         "GENERATED by tools/translate_pure.py from the Rust sources of the crate under check. Do not edit: rewritten by",
         "`checks/pure_fns.py` (called from the checks) whenever a translated function changes. Core Lean only.",
-        "`QmcProofs/PureFnsAgree.lean` proves each definition equal to the hand-written model definition.",
+        "`QmcProofs/PureFnsAgree/<Group>.lean` prove each definition equal to the hand-written model definition.",
         "f64 ↦ Rat (exact; rounding, NaN, ±inf, -0.0 not modelled), usize ↦ Nat, i32 ↦ Int, bool ↦ Bool.",
         "",
         "definition                            source (file:line, enclosing fn)  sha1 of the translated source text",
     ]
-    lines += g.header
+    lines += [h[1] for h in g.header]
+    lines += ["", "groups (a site that leaves the whitelist fails closed for ITS group only; its definition is then missing below):"]
+    for grp in GROUPS[1:]:
+        names = [n for n in g.summary if DEF_GROUP.get(n) == grp]
+        gone = [n for n, gg in DEF_GROUP.items() if gg == grp and n not in g.summary and not n.endswith("_draws")]
+        lines.append("  %-14s %s%s" % (grp, " ".join(names), ("   MISSING: " + " ".join(gone)) if gone else ""))
+    if g.failures:
+        lines += ["", "FAILED CLOSED (not translated):"]
+        for f in g.failures:
+            lines.append("  [%s] %s: %s" % (",".join(f["groups"]), f["site"], f["what"].replace("-/", "- /")))
     lines += ["-/", "", PRELUDE]
-    lines += g.defs
+    lines += [d[1] for d in g.defs]
     lines += ["end Qmc.Gen", ""]
     return "\n".join(lines)
 
 
 def regenerate(repo, out=OUT, check_only=False):
-    """-> (rc, message)"""
-    try:
-        g = run(repo)
-        text = render(g)
-    except Unknown as e:
-        return 2, "translate_pure: FAIL-CLOSED: %s" % e
+    """-> (rc, message, failures).  rc 0: every site translated; rc 2: some sites FAILED CLOSED (listed in `failures`, each
+    with the groups it is charged to) — the other definitions are still written; rc 1: --check and the file would change."""
+    g = run(repo)
+    text = render(g)
     old = open(out).read() if os.path.exists(out) else None
     n = len(g.summary)
+    tail = ""
+    if g.failures:
+        tail = "; %d site(s) FAILED CLOSED: %s" % (len(g.failures), " || ".join("[%s] %s: %s" % (",".join(f["groups"]), f["site"], f["what"]) for f in g.failures))
+    rc = 2 if g.failures else 0
     if old == text:
-        return 0, "translate_pure: unchanged (%d definitions from %d source files)" % (n, len(g.files))
+        return rc, "translate_pure: unchanged (%d definitions from %d source files)%s" % (n, len(g.files), tail), g.failures
     if check_only:
-        return 1, "translate_pure: WOULD CHANGE (%d definitions)" % n
+        return 1, "translate_pure: WOULD CHANGE (%d definitions)%s" % (n, tail), g.failures
     os.makedirs(os.path.dirname(out), exist_ok=True)
     tmp = out + ".tmp%d" % os.getpid()
     with open(tmp, "w") as f:
         f.write(text)
     os.replace(tmp, out)
-    return 0, "translate_pure: wrote %s (%d definitions from %d source files)" % (out, n, len(g.files))
+    return rc, "translate_pure: wrote %s (%d definitions from %d source files)%s" % (out, n, len(g.files), tail), g.failures
 
 
 def main():
@@ -1509,7 +1757,7 @@ def main():
             print(__doc__)
             return 2
         i += 1
-    rc, msg = regenerate(repo, out, check_only)
+    rc, msg, _ = regenerate(repo, out, check_only)
     print(msg)
     return rc
 
